@@ -329,6 +329,9 @@ z_pollaw_after:
   if (rv[self] = 5) { return; }
   else if (rv[self] \in {0, 3, 4}) { h := ObsResolved(h, self, 0 - AwItem(bown), rv[self]); goto z_finish; }
   else { goto z_finish; };
+z_drop_ret:  \* Drop for Desync on a thread that is already unwinding uses sync_no_panic: a panicked queue is left alone (the value leaks), no second panic
+  if (rv[self] = 2 /\ OpTab[bcur].then = "unwinding") { rv[self] := 0; };
+  goto rb_step;
 rb_block:    \* [park] body blocks its thread until the gate fires
   await parkTok[self];
   parkTok[self] := FALSE;
@@ -338,7 +341,7 @@ z_dispatch:
   else if (K(bcur) = "sync") { call Sync(O(bcur), bcur); goto rb_step; }
   else if (K(bcur) = "drop_obj") {
     strong[O(bcur)] := strong[O(bcur)] - 1;
-    if (strong[O(bcur)] = 1 - 1) { call Sync(O(bcur), bcur); goto rb_step; }
+    if (strong[O(bcur)] = 1 - 1) { call Sync(O(bcur), bcur); goto z_drop_ret; }
     else { rv[self] := 0; goto rb_step; }
   }
   else if (K(bcur) \in {"pipe", "pipe_in"}) { call PipeCreate(bcur); goto rb_step; }
@@ -600,7 +603,9 @@ ro_parked:   \* [park]
 }
 
 \* ---- sync (also Desync::drop, whose closure frees the value)
-procedure Sync(yq, yop) {
+procedure Sync(yq, yop)
+  variables yclaimed = FALSE;
+{
 sy_decide:   \* [core]
   if (qstate[yq] \in {"Running", "WaitingForWake", "WaitingForUnpark", "WaitingForPoll", "AwokenWhileRunning"}) { goto sb_reg; }
   else if (qstate[yq] = "Panicked") { rv[self] := 2; return; }
@@ -616,6 +621,10 @@ si_idle:     \* [core]
   qstate[yq] := "Idle";
   call Reschedule(yq);
 z_si_ret:
+  if (Unw(yop)) { goto sy_unw; }
+  else { rv[self] := 0; return; };
+sy_unw:      \* [core] the ActiveQueue guard of sync_immediate/sync_drain is dropped on a thread that is unwinding: it marks the queue Panicked
+  qstate[yq] := "Panicked";
   rv[self] := 0;
   return;
 sd_push:     \* [core]
@@ -636,11 +645,16 @@ sb_push:     \* [core]
   jobs[yq] := Append(jobs[yq], yop);
   if (qstate[yq] = "Idle") { call Reschedule(yq); };
 sb_lock:     \* [ready]
+  \* (coming back from a claimed drain on an unwinding thread, the ActiveQueue guard is dropped here, with 'ready' held: the queue is marked Panicked)
+  if (yclaimed /\ Unw(yop)) { qstate[yq] := "Panicked"; };
+  yclaimed := FALSE;
+z_sb_lock2:
   if (ready[yop]) { cvHeld[yop] := FALSE; goto sb_fin; }
   else if (FixD3 /\ Claimable(yq)) {
     \* repaired code: the queue is claimed with the 'ready' lock held, before waiting
     qstate[yq] := "Running";
     schedule := SelectSeq(schedule, LAMBDA x : x # yq);
+    yclaimed := TRUE;
     goto sb_chk;
   }
   else { cwait[yop] := TRUE; cnotif[yop] := FALSE; goto sb_wait; };
@@ -648,6 +662,7 @@ sb_claim:    \* [sched] claim_pending_queue
   if (qstate[yq] \in {"Pending", "Idle"}) {
     qstate[yq] := "Running";
     schedule := SelectSeq(schedule, LAMBDA x : x # yq);
+    yclaimed := TRUE;
   } else { goto sb_lock; };
 sb_chk:      \* [ready]
   if (~ready[yop]) { call RunOne(yq, yop, "sb"); goto z_sb_chk; };
@@ -667,6 +682,7 @@ sb_wait:     \* [wait]
     cwait[yop] := FALSE; cnotif[yop] := FALSE;
     qstate[yq] := "Running";
     schedule := SelectSeq(schedule, LAMBDA x : x # yq);
+    yclaimed := TRUE;
     goto sb_chk;
   }
   else { cnotif[yop] := FALSE; goto sb_wait; };
@@ -1089,9 +1105,9 @@ CtxAlive(p) == \/ HoldsCtx(inWaker[p])
                \/ \E j \in PollJobs(p) : pjLive[j]
 
 VARIABLES dead, sti, rq, sq, sj, ww, rsq, bown, bwk, bi, bcur, bw, bsp, jq, 
-          jj, jwk, fj, dq, dj, oq, oop, omode, oj, yq, yop, tq, top, af, wf, 
-          wop, sf, sctx, xf, cop, kj, pp, pwk, np, nbp, nres, dp, pf, pctx, 
-          pq, pj, pd, nq
+          jj, jwk, fj, dq, dj, oq, oop, omode, oj, yq, yop, yclaimed, tq, top, 
+          af, wf, wop, sf, sctx, xf, cop, kj, pp, pwk, np, nbp, nres, dp, pf, 
+          pctx, pq, pj, pd, nq
 
 vars == << pc, qstate, qpoll, jobs, wakeBlocked, schedule, pthreads, nspawned, 
            palive, busy, busyLocked, inbox, chanOpen, pfin, thrHeld, 
@@ -1103,8 +1119,9 @@ vars == << pc, qstate, qpoll, jobs, wakeBlocked, schedule, pthreads, nspawned,
            ppHeld, inItems, inClosed, inWaker, pollFn, chuteFn, pwTaken, 
            nextPoll, ppItem, pjLive, ppStage, h, stack, dead, sti, rq, sq, sj, 
            ww, rsq, bown, bwk, bi, bcur, bw, bsp, jq, jj, jwk, fj, dq, dj, oq, 
-           oop, omode, oj, yq, yop, tq, top, af, wf, wop, sf, sctx, xf, cop, 
-           kj, pp, pwk, np, nbp, nres, dp, pf, pctx, pq, pj, pd, nq >>
+           oop, omode, oj, yq, yop, yclaimed, tq, top, af, wf, wop, sf, sctx, 
+           xf, cop, kj, pp, pwk, np, nbp, nres, dp, pf, pctx, pq, pj, pd, nq
+        >>
 
 ProcSet == (Threads) \cup (PoolSet)
 
@@ -1211,6 +1228,7 @@ Init == (* Global variables *)
         (* Procedure Sync *)
         /\ yq = [ self \in ProcSet |-> defaultInitValue]
         /\ yop = [ self \in ProcSet |-> defaultInitValue]
+        /\ yclaimed = [ self \in ProcSet |-> FALSE]
         (* Procedure TrySync *)
         /\ tq = [ self \in ProcSet |-> defaultInitValue]
         /\ top = [ self \in ProcSet |-> defaultInitValue]
@@ -1269,9 +1287,10 @@ st_reap(self) == /\ pc[self] = "st_reap"
                                  chuteFn, pwTaken, nextPoll, ppItem, pjLive, 
                                  ppStage, h, stack, sti, rq, sq, sj, ww, rsq, 
                                  bown, bwk, bi, bcur, bw, bsp, jq, jj, jwk, fj, 
-                                 dq, dj, oq, oop, omode, oj, yq, yop, tq, top, 
-                                 af, wf, wop, sf, sctx, xf, cop, kj, pp, pwk, 
-                                 np, nbp, nres, dp, pf, pctx, pq, pj, pd, nq >>
+                                 dq, dj, oq, oop, omode, oj, yq, yop, yclaimed, 
+                                 tq, top, af, wf, wop, sf, sctx, xf, cop, kj, 
+                                 pp, pwk, np, nbp, nres, dp, pf, pctx, pq, pj, 
+                                 pd, nq >>
 
 st_join(self) == /\ pc[self] = "st_join"
                  /\ dead' = [dead EXCEPT ![self] = Tail(dead[self])]
@@ -1292,9 +1311,10 @@ st_join(self) == /\ pc[self] = "st_join"
                                  chuteFn, pwTaken, nextPoll, ppItem, pjLive, 
                                  ppStage, h, stack, sti, rq, sq, sj, ww, rsq, 
                                  bown, bwk, bi, bcur, bw, bsp, jq, jj, jwk, fj, 
-                                 dq, dj, oq, oop, omode, oj, yq, yop, tq, top, 
-                                 af, wf, wop, sf, sctx, xf, cop, kj, pp, pwk, 
-                                 np, nbp, nres, dp, pf, pctx, pq, pj, pd, nq >>
+                                 dq, dj, oq, oop, omode, oj, yq, yop, yclaimed, 
+                                 tq, top, af, wf, wop, sf, sctx, xf, cop, kj, 
+                                 pp, pwk, np, nbp, nres, dp, pf, pctx, pq, pj, 
+                                 pd, nq >>
 
 st_dormant(self) == /\ pc[self] = "st_dormant"
                     /\ (thrHeld = "" \/ thrHeld = self) /\ (thrHeld = self => ~busyLocked[pthreads[sti[self]]])
@@ -1330,9 +1350,10 @@ st_dormant(self) == /\ pc[self] = "st_dormant"
                                     nextPoll, ppItem, pjLive, ppStage, h, rq, 
                                     sq, sj, ww, rsq, bown, bwk, bi, bcur, bw, 
                                     bsp, jq, jj, jwk, fj, dq, dj, oq, oop, 
-                                    omode, oj, yq, yop, tq, top, af, wf, wop, 
-                                    sf, sctx, xf, cop, kj, pp, pwk, np, nbp, 
-                                    nres, dp, pf, pctx, pq, pj, pd, nq >>
+                                    omode, oj, yq, yop, yclaimed, tq, top, af, 
+                                    wf, wop, sf, sctx, xf, cop, kj, pp, pwk, 
+                                    np, nbp, nres, dp, pf, pctx, pq, pj, pd, 
+                                    nq >>
 
 st_max(self) == /\ pc[self] = "st_max"
                 /\ TRUE
@@ -1351,9 +1372,9 @@ st_max(self) == /\ pc[self] = "st_max"
                                 nextPoll, ppItem, pjLive, ppStage, h, stack, 
                                 dead, sti, rq, sq, sj, ww, rsq, bown, bwk, bi, 
                                 bcur, bw, bsp, jq, jj, jwk, fj, dq, dj, oq, 
-                                oop, omode, oj, yq, yop, tq, top, af, wf, wop, 
-                                sf, sctx, xf, cop, kj, pp, pwk, np, nbp, nres, 
-                                dp, pf, pctx, pq, pj, pd, nq >>
+                                oop, omode, oj, yq, yop, yclaimed, tq, top, af, 
+                                wf, wop, sf, sctx, xf, cop, kj, pp, pwk, np, 
+                                nbp, nres, dp, pf, pctx, pq, pj, pd, nq >>
 
 st_spawn(self) == /\ pc[self] = "st_spawn"
                   /\ thrHeld = ""
@@ -1384,10 +1405,10 @@ st_spawn(self) == /\ pc[self] = "st_spawn"
                                   inWaker, pollFn, chuteFn, pwTaken, nextPoll, 
                                   ppItem, pjLive, ppStage, rq, sq, sj, ww, rsq, 
                                   bown, bwk, bi, bcur, bw, bsp, jq, jj, jwk, 
-                                  fj, dq, dj, oq, oop, omode, oj, yq, yop, tq, 
-                                  top, af, wf, wop, sf, sctx, xf, cop, kj, pp, 
-                                  pwk, np, nbp, nres, dp, pf, pctx, pq, pj, pd, 
-                                  nq >>
+                                  fj, dq, dj, oq, oop, omode, oj, yq, yop, 
+                                  yclaimed, tq, top, af, wf, wop, sf, sctx, xf, 
+                                  cop, kj, pp, pwk, np, nbp, nres, dp, pf, 
+                                  pctx, pq, pj, pd, nq >>
 
 ScheduleThread(self) == st_reap(self) \/ st_join(self) \/ st_dormant(self)
                            \/ st_max(self) \/ st_spawn(self)
@@ -1429,9 +1450,9 @@ rq_core(self) == /\ pc[self] = "rq_core"
                                  pjLive, ppStage, h, dead, sti, sq, sj, ww, 
                                  rsq, bown, bwk, bi, bcur, bw, bsp, jq, jj, 
                                  jwk, fj, dq, dj, oq, oop, omode, oj, yq, yop, 
-                                 tq, top, af, wf, wop, sf, sctx, xf, cop, kj, 
-                                 pp, pwk, np, nbp, nres, dp, pf, pctx, pq, pj, 
-                                 pd, nq >>
+                                 yclaimed, tq, top, af, wf, wop, sf, sctx, xf, 
+                                 cop, kj, pp, pwk, np, nbp, nres, dp, pf, pctx, 
+                                 pq, pj, pd, nq >>
 
 rq_notify(self) == /\ pc[self] = "rq_notify"
                    /\ cnotif' = [cnotif EXCEPT ![Head(rwb[self])] = cwait[Head(rwb[self])]]
@@ -1460,9 +1481,9 @@ rq_notify(self) == /\ pc[self] = "rq_notify"
                                    pjLive, ppStage, h, dead, sti, sq, sj, ww, 
                                    rsq, bown, bwk, bi, bcur, bw, bsp, jq, jj, 
                                    jwk, fj, dq, dj, oq, oop, omode, oj, yq, 
-                                   yop, tq, top, af, wf, wop, sf, sctx, xf, 
-                                   cop, kj, pp, pwk, np, nbp, nres, dp, pf, 
-                                   pctx, pq, pj, pd, nq >>
+                                   yop, yclaimed, tq, top, af, wf, wop, sf, 
+                                   sctx, xf, cop, kj, pp, pwk, np, nbp, nres, 
+                                   dp, pf, pctx, pq, pj, pd, nq >>
 
 rq_sched(self) == /\ pc[self] = "rq_sched"
                   /\ schedule' = Append(schedule, rq[self])
@@ -1488,9 +1509,10 @@ rq_sched(self) == /\ pc[self] = "rq_sched"
                                   chuteFn, pwTaken, nextPoll, ppItem, pjLive, 
                                   ppStage, h, rq, sq, sj, ww, rsq, bown, bwk, 
                                   bi, bcur, bw, bsp, jq, jj, jwk, fj, dq, dj, 
-                                  oq, oop, omode, oj, yq, yop, tq, top, af, wf, 
-                                  wop, sf, sctx, xf, cop, kj, pp, pwk, np, nbp, 
-                                  nres, dp, pf, pctx, pq, pj, pd, nq >>
+                                  oq, oop, omode, oj, yq, yop, yclaimed, tq, 
+                                  top, af, wf, wop, sf, sctx, xf, cop, kj, pp, 
+                                  pwk, np, nbp, nres, dp, pf, pctx, pq, pj, pd, 
+                                  nq >>
 
 Reschedule(self) == rq_core(self) \/ rq_notify(self) \/ rq_sched(self)
 
@@ -1526,9 +1548,9 @@ sj_push(self) == /\ pc[self] = "sj_push"
                                  nextPoll, ppItem, pjLive, ppStage, h, dead, 
                                  sti, rq, ww, rsq, bown, bwk, bi, bcur, bw, 
                                  bsp, jq, jj, jwk, fj, dq, dj, oq, oop, omode, 
-                                 oj, yq, yop, tq, top, af, wf, wop, sf, sctx, 
-                                 xf, cop, kj, pp, pwk, np, nbp, nres, dp, pf, 
-                                 pctx, pq, pj, pd, nq >>
+                                 oj, yq, yop, yclaimed, tq, top, af, wf, wop, 
+                                 sf, sctx, xf, cop, kj, pp, pwk, np, nbp, nres, 
+                                 dp, pf, pctx, pq, pj, pd, nq >>
 
 sj_sched(self) == /\ pc[self] = "sj_sched"
                   /\ schedule' = Append(schedule, sq[self])
@@ -1554,9 +1576,10 @@ sj_sched(self) == /\ pc[self] = "sj_sched"
                                   chuteFn, pwTaken, nextPoll, ppItem, pjLive, 
                                   ppStage, h, rq, sq, sj, ww, rsq, bown, bwk, 
                                   bi, bcur, bw, bsp, jq, jj, jwk, fj, dq, dj, 
-                                  oq, oop, omode, oj, yq, yop, tq, top, af, wf, 
-                                  wop, sf, sctx, xf, cop, kj, pp, pwk, np, nbp, 
-                                  nres, dp, pf, pctx, pq, pj, pd, nq >>
+                                  oq, oop, omode, oj, yq, yop, yclaimed, tq, 
+                                  top, af, wf, wop, sf, sctx, xf, cop, kj, pp, 
+                                  pwk, np, nbp, nres, dp, pf, pctx, pq, pj, pd, 
+                                  nq >>
 
 z_sj_ret(self) == /\ pc[self] = "z_sj_ret"
                   /\ rv' = [rv EXCEPT ![self] = 0]
@@ -1578,9 +1601,10 @@ z_sj_ret(self) == /\ pc[self] = "z_sj_ret"
                                   chuteFn, pwTaken, nextPoll, ppItem, pjLive, 
                                   ppStage, h, dead, sti, rq, ww, rsq, bown, 
                                   bwk, bi, bcur, bw, bsp, jq, jj, jwk, fj, dq, 
-                                  dj, oq, oop, omode, oj, yq, yop, tq, top, af, 
-                                  wf, wop, sf, sctx, xf, cop, kj, pp, pwk, np, 
-                                  nbp, nres, dp, pf, pctx, pq, pj, pd, nq >>
+                                  dj, oq, oop, omode, oj, yq, yop, yclaimed, 
+                                  tq, top, af, wf, wop, sf, sctx, xf, cop, kj, 
+                                  pp, pwk, np, nbp, nres, dp, pf, pctx, pq, pj, 
+                                  pd, nq >>
 
 ScheduleJob(self) == sj_push(self) \/ sj_sched(self) \/ z_sj_ret(self)
 
@@ -1718,9 +1742,10 @@ wk_lock(self) == /\ pc[self] = "wk_lock"
                                  ppHeld, inItems, inClosed, inWaker, pollFn, 
                                  chuteFn, ppItem, ppStage, h, dead, sti, rsq, 
                                  bown, bwk, bi, bcur, bw, bsp, jq, jj, jwk, fj, 
-                                 dq, dj, oq, oop, omode, oj, yq, yop, tq, top, 
-                                 af, wf, wop, sf, sctx, xf, cop, kj, pp, pwk, 
-                                 np, nbp, nres, dp, pf, pctx, pq, pj, pd, nq >>
+                                 dq, dj, oq, oop, omode, oj, yq, yop, yclaimed, 
+                                 tq, top, af, wf, wop, sf, sctx, xf, cop, kj, 
+                                 pp, pwk, np, nbp, nres, dp, pf, pctx, pq, pj, 
+                                 pd, nq >>
 
 z_wk_second(self) == /\ pc[self] = "z_wk_second"
                      /\ IF IsLocking(dblW2[ww[self].d])
@@ -1747,26 +1772,28 @@ z_wk_second(self) == /\ pc[self] = "z_wk_second"
                                      ppItem, pjLive, ppStage, h, dead, sti, rq, 
                                      sq, sj, rsq, bown, bwk, bi, bcur, bw, bsp, 
                                      jq, jj, jwk, fj, dq, dj, oq, oop, omode, 
-                                     oj, yq, yop, tq, top, af, wf, wop, sf, 
-                                     sctx, xf, cop, kj, pp, pwk, np, nbp, nres, 
-                                     dp, pf, pctx, pq, pj, pd, nq >>
+                                     oj, yq, yop, yclaimed, tq, top, af, wf, 
+                                     wop, sf, sctx, xf, cop, kj, pp, pwk, np, 
+                                     nbp, nres, dp, pf, pctx, pq, pj, pd, nq >>
 
 z_pw_after(self) == /\ pc[self] = "z_pw_after"
                     /\ strong' = [strong EXCEPT ![O(ww[self].d)] = strong[O(ww[self].d)] - 1]
                     /\ IF strong'[O(ww[self].d)] = 1 - 1
                           THEN /\ /\ stack' = [stack EXCEPT ![self] = << [ procedure |->  "Sync",
                                                                            pc        |->  "z_wk_ret",
+                                                                           yclaimed  |->  yclaimed[self],
                                                                            yq        |->  yq[self],
                                                                            yop       |->  yop[self] ] >>
                                                                        \o stack[self]]
                                   /\ yop' = [yop EXCEPT ![self] = ChuteJob(OpTab[ww[self].d].p, "pipe_free")]
                                   /\ yq' = [yq EXCEPT ![self] = O(ww[self].d)]
+                               /\ yclaimed' = [yclaimed EXCEPT ![self] = FALSE]
                                /\ pc' = [pc EXCEPT ![self] = "sy_decide"]
                                /\ ww' = ww
                           ELSE /\ pc' = [pc EXCEPT ![self] = Head(stack[self]).pc]
                                /\ ww' = [ww EXCEPT ![self] = Head(stack[self]).ww]
                                /\ stack' = [stack EXCEPT ![self] = Tail(stack[self])]
-                               /\ UNCHANGED << yq, yop >>
+                               /\ UNCHANGED << yq, yop, yclaimed >>
                     /\ UNCHANGED << qstate, qpoll, jobs, wakeBlocked, schedule, 
                                     pthreads, nspawned, palive, busy, 
                                     busyLocked, inbox, chanOpen, pfin, thrHeld, 
@@ -1812,9 +1839,9 @@ pw_take(self) == /\ pc[self] = "pw_take"
                                  nextPoll, ppItem, pjLive, ppStage, h, dead, 
                                  sti, rq, ww, rsq, bown, bwk, bi, bcur, bw, 
                                  bsp, jq, jj, jwk, fj, dq, dj, oq, oop, omode, 
-                                 oj, yq, yop, tq, top, af, wf, wop, sf, sctx, 
-                                 xf, cop, kj, pp, pwk, np, nbp, nres, dp, pf, 
-                                 pctx, pq, pj, pd, nq >>
+                                 oj, yq, yop, yclaimed, tq, top, af, wf, wop, 
+                                 sf, sctx, xf, cop, kj, pp, pwk, np, nbp, nres, 
+                                 dp, pf, pctx, pq, pj, pd, nq >>
 
 z_wk_ret(self) == /\ pc[self] = "z_wk_ret"
                   /\ pc' = [pc EXCEPT ![self] = Head(stack[self]).pc]
@@ -1834,9 +1861,10 @@ z_wk_ret(self) == /\ pc[self] = "z_wk_ret"
                                   chuteFn, pwTaken, nextPoll, ppItem, pjLive, 
                                   ppStage, h, dead, sti, rq, sq, sj, rsq, bown, 
                                   bwk, bi, bcur, bw, bsp, jq, jj, jwk, fj, dq, 
-                                  dj, oq, oop, omode, oj, yq, yop, tq, top, af, 
-                                  wf, wop, sf, sctx, xf, cop, kj, pp, pwk, np, 
-                                  nbp, nres, dp, pf, pctx, pq, pj, pd, nq >>
+                                  dj, oq, oop, omode, oj, yq, yop, yclaimed, 
+                                  tq, top, af, wf, wop, sf, sctx, xf, cop, kj, 
+                                  pp, pwk, np, nbp, nres, dp, pf, pctx, pq, pj, 
+                                  pd, nq >>
 
 Wake(self) == wk_lock(self) \/ z_wk_second(self) \/ z_pw_after(self)
                  \/ pw_take(self) \/ z_wk_ret(self)
@@ -1873,9 +1901,10 @@ rb_step(self) == /\ pc[self] = "rb_step"
                                  chuteFn, pwTaken, nextPoll, ppItem, pjLive, 
                                  ppStage, stack, dead, sti, rq, sq, sj, ww, 
                                  rsq, bown, bwk, bw, bsp, jq, jj, jwk, fj, dq, 
-                                 dj, oq, oop, omode, oj, yq, yop, tq, top, af, 
-                                 wf, wop, sf, sctx, xf, cop, kj, pp, pwk, np, 
-                                 nbp, nres, dp, pf, pctx, pq, pj, pd, nq >>
+                                 dj, oq, oop, omode, oj, yq, yop, yclaimed, tq, 
+                                 top, af, wf, wop, sf, sctx, xf, cop, kj, pp, 
+                                 pwk, np, nbp, nres, dp, pf, pctx, pq, pj, pd, 
+                                 nq >>
 
 z_finish(self) == /\ pc[self] = "z_finish"
                   /\ IF bown[self] = 0
@@ -1973,9 +2002,9 @@ z_finish(self) == /\ pc[self] = "z_finish"
                                   pollFn, chuteFn, pwTaken, nextPoll, ppItem, 
                                   pjLive, ppStage, dead, sti, rq, sq, sj, ww, 
                                   jq, jj, jwk, fj, dq, dj, oq, oop, omode, oj, 
-                                  yq, yop, tq, top, af, wf, wop, sf, sctx, xf, 
-                                  cop, kj, pp, pwk, np, nbp, nres, dp, pf, 
-                                  pctx, pq, pj, pd, nq >>
+                                  yq, yop, yclaimed, tq, top, af, wf, wop, sf, 
+                                  sctx, xf, cop, kj, pp, pwk, np, nbp, nres, 
+                                  dp, pf, pctx, pq, pj, pd, nq >>
 
 z_pollaw(self) == /\ pc[self] = "z_pollaw"
                   /\ IF K(0 - AwItem(bown[self])) = "fsync"
@@ -2017,9 +2046,9 @@ z_pollaw(self) == /\ pc[self] = "z_pollaw"
                                   chuteFn, pwTaken, nextPoll, ppItem, pjLive, 
                                   ppStage, h, dead, sti, rq, sq, sj, ww, rsq, 
                                   bown, bwk, bi, bcur, bw, bsp, jq, jj, jwk, 
-                                  fj, dq, dj, oq, oop, omode, oj, yq, yop, tq, 
-                                  top, af, wf, wop, xf, cop, kj, pp, pwk, np, 
-                                  nbp, nres, dp, nq >>
+                                  fj, dq, dj, oq, oop, omode, oj, yq, yop, 
+                                  yclaimed, tq, top, af, wf, wop, xf, cop, kj, 
+                                  pp, pwk, np, nbp, nres, dp, nq >>
 
 z_pollaw_after(self) == /\ pc[self] = "z_pollaw_after"
                         /\ IF rv[self] = 5
@@ -2056,10 +2085,36 @@ z_pollaw_after(self) == /\ pc[self] = "z_pollaw_after"
                                         chuteFn, pwTaken, nextPoll, ppItem, 
                                         pjLive, ppStage, dead, sti, rq, sq, sj, 
                                         ww, jq, jj, jwk, fj, dq, dj, oq, oop, 
-                                        omode, oj, yq, yop, tq, top, af, wf, 
-                                        wop, sf, sctx, xf, cop, kj, pp, pwk, 
-                                        np, nbp, nres, dp, pf, pctx, pq, pj, 
-                                        pd, nq >>
+                                        omode, oj, yq, yop, yclaimed, tq, top, 
+                                        af, wf, wop, sf, sctx, xf, cop, kj, pp, 
+                                        pwk, np, nbp, nres, dp, pf, pctx, pq, 
+                                        pj, pd, nq >>
+
+z_drop_ret(self) == /\ pc[self] = "z_drop_ret"
+                    /\ IF rv[self] = 2 /\ OpTab[bcur[self]].then = "unwinding"
+                          THEN /\ rv' = [rv EXCEPT ![self] = 0]
+                          ELSE /\ TRUE
+                               /\ rv' = rv
+                    /\ pc' = [pc EXCEPT ![self] = "rb_step"]
+                    /\ UNCHANGED << qstate, qpoll, jobs, wakeBlocked, schedule, 
+                                    pthreads, nspawned, palive, busy, 
+                                    busyLocked, inbox, chanOpen, pfin, thrHeld, 
+                                    maxThreads, jkind, jaw, fres, fwaker, 
+                                    gfired, gwaker, gthreads, gwhist, dwSt, 
+                                    dwW, dblTaken, dblW1, dblW2, nextDW, ready, 
+                                    cwait, cnotif, cvHeld, sdres, jpanic, sfst, 
+                                    slotSt, qrSent, qrWaker, dnState, dnWaker, 
+                                    parkTok, rwb, rneed, dsl, atomic, strong, 
+                                    ppPending, ppClosed, ppNotify, ppNC, ppBP, 
+                                    ppDepth, ppAlive, ppHeld, inItems, 
+                                    inClosed, inWaker, pollFn, chuteFn, 
+                                    pwTaken, nextPoll, ppItem, pjLive, ppStage, 
+                                    h, stack, dead, sti, rq, sq, sj, ww, rsq, 
+                                    bown, bwk, bi, bcur, bw, bsp, jq, jj, jwk, 
+                                    fj, dq, dj, oq, oop, omode, oj, yq, yop, 
+                                    yclaimed, tq, top, af, wf, wop, sf, sctx, 
+                                    xf, cop, kj, pp, pwk, np, nbp, nres, dp, 
+                                    pf, pctx, pq, pj, pd, nq >>
 
 rb_block(self) == /\ pc[self] = "rb_block"
                   /\ parkTok[self]
@@ -2080,9 +2135,9 @@ rb_block(self) == /\ pc[self] = "rb_block"
                                   ppStage, h, stack, dead, sti, rq, sq, sj, ww, 
                                   rsq, bown, bwk, bi, bcur, bw, bsp, jq, jj, 
                                   jwk, fj, dq, dj, oq, oop, omode, oj, yq, yop, 
-                                  tq, top, af, wf, wop, sf, sctx, xf, cop, kj, 
-                                  pp, pwk, np, nbp, nres, dp, pf, pctx, pq, pj, 
-                                  pd, nq >>
+                                  yclaimed, tq, top, af, wf, wop, sf, sctx, xf, 
+                                  cop, kj, pp, pwk, np, nbp, nres, dp, pf, 
+                                  pctx, pq, pj, pd, nq >>
 
 z_dispatch(self) == /\ pc[self] = "z_dispatch"
                     /\ IF K(bcur[self]) = "desync"
@@ -2098,17 +2153,20 @@ z_dispatch(self) == /\ pc[self] = "z_dispatch"
                                /\ UNCHANGED << gfired, gwaker, gthreads, 
                                                parkTok, rv, strong, inItems, 
                                                inClosed, inWaker, h, ww, bw, 
-                                               bsp, yq, yop, tq, top, af, wf, 
-                                               wop, sf, sctx, xf, cop, np, nbp, 
-                                               nres, dp, pf, pctx, pq, pj, pd >>
+                                               bsp, yq, yop, yclaimed, tq, top, 
+                                               af, wf, wop, sf, sctx, xf, cop, 
+                                               np, nbp, nres, dp, pf, pctx, pq, 
+                                               pj, pd >>
                           ELSE /\ IF K(bcur[self]) = "sync"
                                      THEN /\ /\ stack' = [stack EXCEPT ![self] = << [ procedure |->  "Sync",
                                                                                       pc        |->  "rb_step",
+                                                                                      yclaimed  |->  yclaimed[self],
                                                                                       yq        |->  yq[self],
                                                                                       yop       |->  yop[self] ] >>
                                                                                   \o stack[self]]
                                              /\ yop' = [yop EXCEPT ![self] = bcur[self]]
                                              /\ yq' = [yq EXCEPT ![self] = O(bcur[self])]
+                                          /\ yclaimed' = [yclaimed EXCEPT ![self] = FALSE]
                                           /\ pc' = [pc EXCEPT ![self] = "sy_decide"]
                                           /\ UNCHANGED << jkind, gfired, 
                                                           gwaker, gthreads, 
@@ -2124,19 +2182,22 @@ z_dispatch(self) == /\ pc[self] = "z_dispatch"
                                                 THEN /\ strong' = [strong EXCEPT ![O(bcur[self])] = strong[O(bcur[self])] - 1]
                                                      /\ IF strong'[O(bcur[self])] = 1 - 1
                                                            THEN /\ /\ stack' = [stack EXCEPT ![self] = << [ procedure |->  "Sync",
-                                                                                                            pc        |->  "rb_step",
+                                                                                                            pc        |->  "z_drop_ret",
+                                                                                                            yclaimed  |->  yclaimed[self],
                                                                                                             yq        |->  yq[self],
                                                                                                             yop       |->  yop[self] ] >>
                                                                                                         \o stack[self]]
                                                                    /\ yop' = [yop EXCEPT ![self] = bcur[self]]
                                                                    /\ yq' = [yq EXCEPT ![self] = O(bcur[self])]
+                                                                /\ yclaimed' = [yclaimed EXCEPT ![self] = FALSE]
                                                                 /\ pc' = [pc EXCEPT ![self] = "sy_decide"]
                                                                 /\ rv' = rv
                                                            ELSE /\ rv' = [rv EXCEPT ![self] = 0]
                                                                 /\ pc' = [pc EXCEPT ![self] = "rb_step"]
                                                                 /\ UNCHANGED << stack, 
                                                                                 yq, 
-                                                                                yop >>
+                                                                                yop, 
+                                                                                yclaimed >>
                                                      /\ UNCHANGED << jkind, 
                                                                      gfired, 
                                                                      gwaker, 
@@ -2642,7 +2703,8 @@ z_dispatch(self) == /\ pc[self] = "z_dispatch"
                                                                                            inWaker >>
                                                                 /\ cop' = cop
                                                      /\ UNCHANGED << strong, 
-                                                                     yq, yop >>
+                                                                     yq, yop, 
+                                                                     yclaimed >>
                     /\ UNCHANGED << qstate, qpoll, jobs, wakeBlocked, schedule, 
                                     pthreads, nspawned, palive, busy, 
                                     busyLocked, inbox, chanOpen, pfin, thrHeld, 
@@ -2691,9 +2753,9 @@ z_then(self) == /\ pc[self] = "z_then"
                                 nextPoll, ppItem, pjLive, ppStage, h, dead, 
                                 sti, rq, sq, sj, ww, rsq, bown, bwk, bi, bcur, 
                                 bw, bsp, jq, jj, jwk, fj, dq, dj, oq, oop, 
-                                omode, oj, yq, yop, tq, top, wf, wop, sf, sctx, 
-                                cop, kj, pp, pwk, np, nbp, nres, dp, pf, pctx, 
-                                pq, pj, pd, nq >>
+                                omode, oj, yq, yop, yclaimed, tq, top, wf, wop, 
+                                sf, sctx, cop, kj, pp, pwk, np, nbp, nres, dp, 
+                                pf, pctx, pq, pj, pd, nq >>
 
 z_polled(self) == /\ pc[self] = "z_polled"
                   /\ IF rv[self] \in {0, 3, 4}
@@ -2716,9 +2778,9 @@ z_polled(self) == /\ pc[self] = "z_polled"
                                   ppStage, stack, dead, sti, rq, sq, sj, ww, 
                                   rsq, bown, bwk, bi, bcur, bw, bsp, jq, jj, 
                                   jwk, fj, dq, dj, oq, oop, omode, oj, yq, yop, 
-                                  tq, top, af, wf, wop, sf, sctx, xf, cop, kj, 
-                                  pp, pwk, np, nbp, nres, dp, pf, pctx, pq, pj, 
-                                  pd, nq >>
+                                  yclaimed, tq, top, af, wf, wop, sf, sctx, xf, 
+                                  cop, kj, pp, pwk, np, nbp, nres, dp, pf, 
+                                  pctx, pq, pj, pd, nq >>
 
 pp_setdepth(self) == /\ pc[self] = "pp_setdepth"
                      /\ ppDepth' = [ppDepth EXCEPT ![OpTab[bcur[self]].p] = OpTab[bcur[self]].n]
@@ -2740,9 +2802,10 @@ pp_setdepth(self) == /\ pc[self] = "pp_setdepth"
                                      pjLive, ppStage, h, stack, dead, sti, rq, 
                                      sq, sj, ww, rsq, bown, bwk, bi, bcur, bw, 
                                      bsp, jq, jj, jwk, fj, dq, dj, oq, oop, 
-                                     omode, oj, yq, yop, tq, top, af, wf, wop, 
-                                     sf, sctx, xf, cop, kj, pp, pwk, np, nbp, 
-                                     nres, dp, pf, pctx, pq, pj, pd, nq >>
+                                     omode, oj, yq, yop, yclaimed, tq, top, af, 
+                                     wf, wop, sf, sctx, xf, cop, kj, pp, pwk, 
+                                     np, nbp, nres, dp, pf, pctx, pq, pj, pd, 
+                                     nq >>
 
 z_spur(self) == /\ pc[self] = "z_spur"
                 /\ IF bsp[self] = << >>
@@ -2775,9 +2838,9 @@ z_spur(self) == /\ pc[self] = "z_spur"
                                 nextPoll, ppItem, pjLive, ppStage, h, dead, 
                                 sti, rq, sq, sj, rsq, bown, bwk, bi, bcur, jq, 
                                 jj, jwk, fj, dq, dj, oq, oop, omode, oj, yq, 
-                                yop, tq, top, af, wf, wop, sf, sctx, xf, cop, 
-                                kj, pp, pwk, np, nbp, nres, dp, pf, pctx, pq, 
-                                pj, pd, nq >>
+                                yop, yclaimed, tq, top, af, wf, wop, sf, sctx, 
+                                xf, cop, kj, pp, pwk, np, nbp, nres, dp, pf, 
+                                pctx, pq, pj, pd, nq >>
 
 rb_wait(self) == /\ pc[self] = "rb_wait"
                  /\ parkTok[self]
@@ -2801,9 +2864,9 @@ rb_wait(self) == /\ pc[self] = "rb_wait"
                                  nextPoll, ppItem, pjLive, ppStage, h, stack, 
                                  dead, sti, rq, sq, sj, ww, rsq, bown, bwk, bi, 
                                  bcur, bw, bsp, jq, jj, jwk, fj, dq, dj, oq, 
-                                 oop, omode, oj, yq, yop, tq, top, af, wf, wop, 
-                                 sf, sctx, xf, cop, kj, pp, pwk, np, nbp, nres, 
-                                 dp, pf, pctx, pq, pj, pd, nq >>
+                                 oop, omode, oj, yq, yop, yclaimed, tq, top, 
+                                 af, wf, wop, sf, sctx, xf, cop, kj, pp, pwk, 
+                                 np, nbp, nres, dp, pf, pctx, pq, pj, pd, nq >>
 
 mx_set(self) == /\ pc[self] = "mx_set"
                 /\ maxThreads' = OpTab[bcur[self]].n
@@ -2824,15 +2887,15 @@ mx_set(self) == /\ pc[self] = "mx_set"
                                 nextPoll, ppItem, pjLive, ppStage, stack, dead, 
                                 sti, rq, sq, sj, ww, rsq, bown, bwk, bi, bcur, 
                                 bw, bsp, jq, jj, jwk, fj, dq, dj, oq, oop, 
-                                omode, oj, yq, yop, tq, top, af, wf, wop, sf, 
-                                sctx, xf, cop, kj, pp, pwk, np, nbp, nres, dp, 
-                                pf, pctx, pq, pj, pd, nq >>
+                                omode, oj, yq, yop, yclaimed, tq, top, af, wf, 
+                                wop, sf, sctx, xf, cop, kj, pp, pwk, np, nbp, 
+                                nres, dp, pf, pctx, pq, pj, pd, nq >>
 
 RunOps(self) == rb_step(self) \/ z_finish(self) \/ z_pollaw(self)
-                   \/ z_pollaw_after(self) \/ rb_block(self)
-                   \/ z_dispatch(self) \/ z_then(self) \/ z_polled(self)
-                   \/ pp_setdepth(self) \/ z_spur(self) \/ rb_wait(self)
-                   \/ mx_set(self)
+                   \/ z_pollaw_after(self) \/ z_drop_ret(self)
+                   \/ rb_block(self) \/ z_dispatch(self) \/ z_then(self)
+                   \/ z_polled(self) \/ pp_setdepth(self) \/ z_spur(self)
+                   \/ rb_wait(self) \/ mx_set(self)
 
 z_rj(self) == /\ pc[self] = "z_rj"
               /\ IF K(jj[self]) \in {"desync", "sync", "try_sync"}
@@ -2857,7 +2920,8 @@ z_rj(self) == /\ pc[self] = "z_rj"
                          /\ pc' = [pc EXCEPT ![self] = "rb_step"]
                          /\ UNCHANGED << gwaker, gwhist, sdres, slotSt, qrSent, 
                                          parkTok, rv, strong, chuteFn, ww, jq, 
-                                         jj, jwk, yq, yop, kj, pp, pwk >>
+                                         jj, jwk, yq, yop, yclaimed, kj, pp, 
+                                         pwk >>
                     ELSE /\ IF K(jj[self]) = "fdesync"
                                THEN /\ IF jaw[jj[self]] = 0
                                           THEN /\ h' = ObsStart(h, self, jj[self])
@@ -2924,7 +2988,8 @@ z_rj(self) == /\ pc[self] = "z_rj"
                                                /\ h' = h
                                     /\ UNCHANGED << sdres, slotSt, qrSent, 
                                                     parkTok, strong, chuteFn, 
-                                                    ww, yq, yop, kj, pp, pwk >>
+                                                    ww, yq, yop, yclaimed, kj, 
+                                                    pp, pwk >>
                                ELSE /\ IF K(jj[self]) = "after"
                                           THEN /\ IF OpTab[jj[self]].g \in gfired
                                                      THEN /\ h' = ObsStart(h, self, jj[self])
@@ -2971,7 +3036,8 @@ z_rj(self) == /\ pc[self] = "z_rj"
                                                /\ UNCHANGED << sdres, slotSt, 
                                                                qrSent, parkTok, 
                                                                strong, chuteFn, 
-                                                               ww, yq, yop, kj, 
+                                                               ww, yq, yop, 
+                                                               yclaimed, kj, 
                                                                pp, pwk >>
                                           ELSE /\ IF K(jj[self]) \in {"pipe", "pipe_in"}
                                                      THEN /\ IF jkind[jj[self]] = "syncdrain"
@@ -2995,6 +3061,7 @@ z_rj(self) == /\ pc[self] = "z_rj"
                                                                           ww, 
                                                                           yq, 
                                                                           yop, 
+                                                                          yclaimed, 
                                                                           kj, 
                                                                           pp, 
                                                                           pwk >>
@@ -3036,7 +3103,8 @@ z_rj(self) == /\ pc[self] = "z_rj"
                                                                                      h, 
                                                                                      ww, 
                                                                                      yq, 
-                                                                                     yop >>
+                                                                                     yop, 
+                                                                                     yclaimed >>
                                                                 ELSE /\ IF K(jj[self]) = "chute_dropfn"
                                                                            THEN /\ IF chuteFn[OpTab[jj[self]].p]
                                                                                       THEN /\ h' = PFlag(PFlag(h, OpTab[jj[self]].p, "in_dropped"), OpTab[jj[self]].p, "closure_dropped")
@@ -3058,17 +3126,20 @@ z_rj(self) == /\ pc[self] = "z_rj"
                                                                                                 strong, 
                                                                                                 ww, 
                                                                                                 yq, 
-                                                                                                yop >>
+                                                                                                yop, 
+                                                                                                yclaimed >>
                                                                            ELSE /\ IF K(jj[self]) = "chute_release"
                                                                                       THEN /\ strong' = [strong EXCEPT ![O(PipeOp(OpTab[jj[self]].p))] = strong[O(PipeOp(OpTab[jj[self]].p))] - 1]
                                                                                            /\ IF strong'[O(PipeOp(OpTab[jj[self]].p))] = 1 - 1
                                                                                                  THEN /\ /\ stack' = [stack EXCEPT ![self] = << [ procedure |->  "Sync",
                                                                                                                                                   pc        |->  "z_rj_ok",
+                                                                                                                                                  yclaimed  |->  yclaimed[self],
                                                                                                                                                   yq        |->  yq[self],
                                                                                                                                                   yop       |->  yop[self] ] >>
                                                                                                                                               \o stack[self]]
                                                                                                          /\ yop' = [yop EXCEPT ![self] = ChuteJob(OpTab[jj[self]].p, "pipe_free")]
                                                                                                          /\ yq' = [yq EXCEPT ![self] = O(PipeOp(OpTab[jj[self]].p))]
+                                                                                                      /\ yclaimed' = [yclaimed EXCEPT ![self] = FALSE]
                                                                                                       /\ pc' = [pc EXCEPT ![self] = "sy_decide"]
                                                                                                       /\ UNCHANGED << rv, 
                                                                                                                       jq, 
@@ -3081,7 +3152,8 @@ z_rj(self) == /\ pc[self] = "z_rj"
                                                                                                       /\ jwk' = [jwk EXCEPT ![self] = Head(stack[self]).jwk]
                                                                                                       /\ stack' = [stack EXCEPT ![self] = Tail(stack[self])]
                                                                                                       /\ UNCHANGED << yq, 
-                                                                                                                      yop >>
+                                                                                                                      yop, 
+                                                                                                                      yclaimed >>
                                                                                            /\ UNCHANGED << gwaker, 
                                                                                                            sdres, 
                                                                                                            slotSt, 
@@ -3176,7 +3248,8 @@ z_rj(self) == /\ pc[self] = "z_rj"
                                                                                                                       h >>
                                                                                            /\ UNCHANGED << strong, 
                                                                                                            yq, 
-                                                                                                           yop >>
+                                                                                                           yop, 
+                                                                                                           yclaimed >>
                                                                                 /\ UNCHANGED chuteFn
                                                                      /\ UNCHANGED << gwhist, 
                                                                                      kj, 
@@ -3220,9 +3293,9 @@ z_rj_ret(self) == /\ pc[self] = "z_rj_ret"
                                   chuteFn, pwTaken, nextPoll, ppItem, pjLive, 
                                   ppStage, h, dead, sti, rq, sq, sj, ww, rsq, 
                                   bown, bwk, bi, bcur, bw, bsp, fj, dq, dj, oq, 
-                                  oop, omode, oj, yq, yop, tq, top, af, wf, 
-                                  wop, sf, sctx, xf, cop, kj, pp, pwk, np, nbp, 
-                                  nres, dp, pf, pctx, pq, pj, pd, nq >>
+                                  oop, omode, oj, yq, yop, yclaimed, tq, top, 
+                                  af, wf, wop, sf, sctx, xf, cop, kj, pp, pwk, 
+                                  np, nbp, nres, dp, pf, pctx, pq, pj, pd, nq >>
 
 z_rj_ok(self) == /\ pc[self] = "z_rj_ok"
                  /\ rv' = [rv EXCEPT ![self] = 0]
@@ -3245,9 +3318,9 @@ z_rj_ok(self) == /\ pc[self] = "z_rj_ok"
                                  nextPoll, ppItem, pjLive, ppStage, h, dead, 
                                  sti, rq, sq, sj, ww, rsq, bown, bwk, bi, bcur, 
                                  bw, bsp, fj, dq, dj, oq, oop, omode, oj, yq, 
-                                 yop, tq, top, af, wf, wop, sf, sctx, xf, cop, 
-                                 kj, pp, pwk, np, nbp, nres, dp, pf, pctx, pq, 
-                                 pj, pd, nq >>
+                                 yop, yclaimed, tq, top, af, wf, wop, sf, sctx, 
+                                 xf, cop, kj, pp, pwk, np, nbp, nres, dp, pf, 
+                                 pctx, pq, pj, pd, nq >>
 
 z_pp_gc(self) == /\ pc[self] = "z_pp_gc"
                  /\ IF pollFn[OpTab[jj[self]].p] /\ rv[self] = 0 /\ ~(\/ HoldsCtx(inWaker[OpTab[jj[self]].p])
@@ -3280,9 +3353,9 @@ z_pp_gc(self) == /\ pc[self] = "z_pp_gc"
                                  pwTaken, nextPoll, ppItem, ppStage, dead, sti, 
                                  rq, sq, sj, ww, rsq, bown, bwk, bi, bcur, bw, 
                                  bsp, fj, dq, dj, oq, oop, omode, oj, yq, yop, 
-                                 tq, top, af, wf, wop, sf, sctx, xf, cop, kj, 
-                                 pp, pwk, np, nbp, nres, dp, pf, pctx, pq, pj, 
-                                 pd, nq >>
+                                 yclaimed, tq, top, af, wf, wop, sf, sctx, xf, 
+                                 cop, kj, pp, pwk, np, nbp, nres, dp, pf, pctx, 
+                                 pq, pj, pd, nq >>
 
 z_slot2(self) == /\ pc[self] = "z_slot2"
                  /\ IF dnState[jj[self]] # "open"
@@ -3314,9 +3387,9 @@ z_slot2(self) == /\ pc[self] = "z_slot2"
                                  nextPoll, ppItem, pjLive, ppStage, h, dead, 
                                  sti, rq, sq, sj, ww, rsq, bown, bwk, bi, bcur, 
                                  bw, bsp, fj, dq, dj, oq, oop, omode, oj, yq, 
-                                 yop, tq, top, af, wf, wop, sf, sctx, xf, cop, 
-                                 kj, pp, pwk, np, nbp, nres, dp, pf, pctx, pq, 
-                                 pj, pd, nq >>
+                                 yop, yclaimed, tq, top, af, wf, wop, sf, sctx, 
+                                 xf, cop, kj, pp, pwk, np, nbp, nres, dp, pf, 
+                                 pctx, pq, pj, pd, nq >>
 
 sus_signal(self) == /\ pc[self] = "sus_signal"
                     /\ LET w == fwaker[jj[self]] IN
@@ -3348,9 +3421,10 @@ sus_signal(self) == /\ pc[self] = "sus_signal"
                                     nextPoll, ppItem, pjLive, ppStage, h, dead, 
                                     sti, rq, sq, sj, rsq, bown, bwk, bi, bcur, 
                                     bw, bsp, jq, jj, jwk, fj, dq, dj, oq, oop, 
-                                    omode, oj, yq, yop, tq, top, af, wf, wop, 
-                                    sf, sctx, xf, cop, kj, pp, pwk, np, nbp, 
-                                    nres, dp, pf, pctx, pq, pj, pd, nq >>
+                                    omode, oj, yq, yop, yclaimed, tq, top, af, 
+                                    wf, wop, sf, sctx, xf, cop, kj, pp, pwk, 
+                                    np, nbp, nres, dp, pf, pctx, pq, pj, pd, 
+                                    nq >>
 
 sus_sigdrop(self) == /\ pc[self] = "sus_sigdrop"
                      /\ jaw' = [jaw EXCEPT ![jj[self]] = 1]
@@ -3379,10 +3453,10 @@ sus_sigdrop(self) == /\ pc[self] = "sus_sigdrop"
                                      chuteFn, pwTaken, nextPoll, ppItem, 
                                      pjLive, ppStage, h, dead, sti, rq, sq, sj, 
                                      ww, rsq, bown, bwk, bi, bcur, bw, bsp, fj, 
-                                     dq, dj, oq, oop, omode, oj, yq, yop, tq, 
-                                     top, af, wf, wop, sf, sctx, xf, cop, kj, 
-                                     pp, pwk, np, nbp, nres, dp, pf, pctx, pq, 
-                                     pj, pd, nq >>
+                                     dq, dj, oq, oop, omode, oj, yq, yop, 
+                                     yclaimed, tq, top, af, wf, wop, sf, sctx, 
+                                     xf, cop, kj, pp, pwk, np, nbp, nres, dp, 
+                                     pf, pctx, pq, pj, pd, nq >>
 
 sus_inner(self) == /\ pc[self] = "sus_inner"
                    /\ TRUE
@@ -3402,9 +3476,10 @@ sus_inner(self) == /\ pc[self] = "sus_inner"
                                    nextPoll, ppItem, pjLive, ppStage, h, stack, 
                                    dead, sti, rq, sq, sj, ww, rsq, bown, bwk, 
                                    bi, bcur, bw, bsp, jq, jj, jwk, fj, dq, dj, 
-                                   oq, oop, omode, oj, yq, yop, tq, top, af, 
-                                   wf, wop, sf, sctx, xf, cop, kj, pp, pwk, np, 
-                                   nbp, nres, dp, pf, pctx, pq, pj, pd, nq >>
+                                   oq, oop, omode, oj, yq, yop, yclaimed, tq, 
+                                   top, af, wf, wop, sf, sctx, xf, cop, kj, pp, 
+                                   pwk, np, nbp, nres, dp, pf, pctx, pq, pj, 
+                                   pd, nq >>
 
 sus_innerdrop(self) == /\ pc[self] = "sus_innerdrop"
                        /\ rv' = [rv EXCEPT ![self] = 0]
@@ -3430,9 +3505,9 @@ sus_innerdrop(self) == /\ pc[self] = "sus_innerdrop"
                                        pjLive, ppStage, h, dead, sti, rq, sq, 
                                        sj, ww, rsq, bown, bwk, bi, bcur, bw, 
                                        bsp, fj, dq, dj, oq, oop, omode, oj, yq, 
-                                       yop, tq, top, af, wf, wop, sf, sctx, xf, 
-                                       cop, kj, pp, pwk, np, nbp, nres, dp, pf, 
-                                       pctx, pq, pj, pd, nq >>
+                                       yop, yclaimed, tq, top, af, wf, wop, sf, 
+                                       sctx, xf, cop, kj, pp, pwk, np, nbp, 
+                                       nres, dp, pf, pctx, pq, pj, pd, nq >>
 
 ws_take(self) == /\ pc[self] = "ws_take"
                  /\ IF fres[OpTab[jj[self]].f] = "some"
@@ -3466,9 +3541,9 @@ ws_take(self) == /\ pc[self] = "ws_take"
                                  nextPoll, ppItem, pjLive, ppStage, h, dead, 
                                  sti, rq, sq, sj, ww, rsq, bown, bwk, bi, bcur, 
                                  bw, bsp, fj, dq, dj, oq, oop, omode, oj, yq, 
-                                 yop, tq, top, af, wf, wop, sf, sctx, xf, cop, 
-                                 kj, pp, pwk, np, nbp, nres, dp, pf, pctx, pq, 
-                                 pj, pd, nq >>
+                                 yop, yclaimed, tq, top, af, wf, wop, sf, sctx, 
+                                 xf, cop, kj, pp, pwk, np, nbp, nres, dp, pf, 
+                                 pctx, pq, pj, pd, nq >>
 
 RunJob(self) == z_rj(self) \/ z_rj_ret(self) \/ z_rj_ok(self)
                    \/ z_pp_gc(self) \/ z_slot2(self) \/ sus_signal(self)
@@ -3511,10 +3586,10 @@ fj_lock(self) == /\ pc[self] = "fj_lock"
                                  pollFn, chuteFn, pwTaken, nextPoll, ppItem, 
                                  pjLive, ppStage, h, dead, sti, rq, sq, sj, 
                                  rsq, bown, bwk, bi, bcur, bw, bsp, jq, jj, 
-                                 jwk, dq, dj, oq, oop, omode, oj, yq, yop, tq, 
-                                 top, af, wf, wop, sf, sctx, xf, cop, kj, pp, 
-                                 pwk, np, nbp, nres, dp, pf, pctx, pq, pj, pd, 
-                                 nq >>
+                                 jwk, dq, dj, oq, oop, omode, oj, yq, yop, 
+                                 yclaimed, tq, top, af, wf, wop, sf, sctx, xf, 
+                                 cop, kj, pp, pwk, np, nbp, nres, dp, pf, pctx, 
+                                 pq, pj, pd, nq >>
 
 z_fj_chk(self) == /\ pc[self] = "z_fj_chk"
                   /\ IF jpanic[fj[self]] /\ jkind[fj[self]] = "fut"
@@ -3537,9 +3612,10 @@ z_fj_chk(self) == /\ pc[self] = "z_fj_chk"
                                   chuteFn, pwTaken, nextPoll, ppItem, pjLive, 
                                   ppStage, h, dead, sti, rq, sq, sj, ww, rsq, 
                                   bown, bwk, bi, bcur, bw, bsp, jq, jj, jwk, 
-                                  dq, dj, oq, oop, omode, oj, yq, yop, tq, top, 
-                                  af, wf, wop, sf, sctx, xf, cop, kj, pp, pwk, 
-                                  np, nbp, nres, dp, pf, pctx, pq, pj, pd, nq >>
+                                  dq, dj, oq, oop, omode, oj, yq, yop, 
+                                  yclaimed, tq, top, af, wf, wop, sf, sctx, xf, 
+                                  cop, kj, pp, pwk, np, nbp, nres, dp, pf, 
+                                  pctx, pq, pj, pd, nq >>
 
 fj_sigdrop(self) == /\ pc[self] = "fj_sigdrop"
                     /\ pc' = [pc EXCEPT ![self] = Head(stack[self]).pc]
@@ -3560,10 +3636,10 @@ fj_sigdrop(self) == /\ pc[self] = "fj_sigdrop"
                                     chuteFn, pwTaken, nextPoll, ppItem, pjLive, 
                                     ppStage, h, dead, sti, rq, sq, sj, ww, rsq, 
                                     bown, bwk, bi, bcur, bw, bsp, jq, jj, jwk, 
-                                    dq, dj, oq, oop, omode, oj, yq, yop, tq, 
-                                    top, af, wf, wop, sf, sctx, xf, cop, kj, 
-                                    pp, pwk, np, nbp, nres, dp, pf, pctx, pq, 
-                                    pj, pd, nq >>
+                                    dq, dj, oq, oop, omode, oj, yq, yop, 
+                                    yclaimed, tq, top, af, wf, wop, sf, sctx, 
+                                    xf, cop, kj, pp, pwk, np, nbp, nres, dp, 
+                                    pf, pctx, pq, pj, pd, nq >>
 
 FinishJob(self) == fj_lock(self) \/ z_fj_chk(self) \/ fj_sigdrop(self)
 
@@ -3597,9 +3673,9 @@ pd_deq(self) == /\ pc[self] = "pd_deq"
                                 nextPoll, ppItem, pjLive, ppStage, h, dead, 
                                 sti, rq, sq, sj, ww, rsq, bown, bwk, bi, bcur, 
                                 bw, bsp, fj, dq, oq, oop, omode, oj, yq, yop, 
-                                tq, top, af, wf, wop, sf, sctx, xf, cop, kj, 
-                                pp, pwk, np, nbp, nres, dp, pf, pctx, pq, pj, 
-                                pd, nq >>
+                                yclaimed, tq, top, af, wf, wop, sf, sctx, xf, 
+                                cop, kj, pp, pwk, np, nbp, nres, dp, pf, pctx, 
+                                pq, pj, pd, nq >>
 
 z_pd_after(self) == /\ pc[self] = "z_pd_after"
                     /\ IF rv[self] = 5
@@ -3639,10 +3715,10 @@ z_pd_after(self) == /\ pc[self] = "z_pd_after"
                                     chuteFn, pwTaken, nextPoll, ppItem, pjLive, 
                                     ppStage, h, dead, sti, rq, sq, sj, ww, rsq, 
                                     bown, bwk, bi, bcur, bw, bsp, jq, jj, jwk, 
-                                    dq, dj, oq, oop, omode, oj, yq, yop, tq, 
-                                    top, af, wf, wop, sf, sctx, xf, cop, kj, 
-                                    pp, pwk, np, nbp, nres, dp, pf, pctx, pq, 
-                                    pj, pd, nq >>
+                                    dq, dj, oq, oop, omode, oj, yq, yop, 
+                                    yclaimed, tq, top, af, wf, wop, sf, sctx, 
+                                    xf, cop, kj, pp, pwk, np, nbp, nres, dp, 
+                                    pf, pctx, pq, pj, pd, nq >>
 
 pd_requeue(self) == /\ pc[self] = "pd_requeue"
                     /\ jobs' = [jobs EXCEPT ![dq[self]] = << dj[self] >> \o jobs[dq[self]]]
@@ -3663,9 +3739,9 @@ pd_requeue(self) == /\ pc[self] = "pd_requeue"
                                     ppStage, h, stack, dead, sti, rq, sq, sj, 
                                     ww, rsq, bown, bwk, bi, bcur, bw, bsp, jq, 
                                     jj, jwk, fj, dq, dj, oq, oop, omode, oj, 
-                                    yq, yop, tq, top, af, wf, wop, sf, sctx, 
-                                    xf, cop, kj, pp, pwk, np, nbp, nres, dp, 
-                                    pf, pctx, pq, pj, pd, nq >>
+                                    yq, yop, yclaimed, tq, top, af, wf, wop, 
+                                    sf, sctx, xf, cop, kj, pp, pwk, np, nbp, 
+                                    nres, dp, pf, pctx, pq, pj, pd, nq >>
 
 pd_park(self) == /\ pc[self] = "pd_park"
                  /\ IF qstate[dq[self]] = "Running"
@@ -3695,9 +3771,9 @@ pd_park(self) == /\ pc[self] = "pd_park"
                                  nextPoll, ppItem, pjLive, ppStage, h, dead, 
                                  sti, rq, sq, sj, ww, rsq, bown, bwk, bi, bcur, 
                                  bw, bsp, jq, jj, jwk, fj, oq, oop, omode, oj, 
-                                 yq, yop, tq, top, af, wf, wop, sf, sctx, xf, 
-                                 cop, kj, pp, pwk, np, nbp, nres, dp, pf, pctx, 
-                                 pq, pj, pd, nq >>
+                                 yq, yop, yclaimed, tq, top, af, wf, wop, sf, 
+                                 sctx, xf, cop, kj, pp, pwk, np, nbp, nres, dp, 
+                                 pf, pctx, pq, pj, pd, nq >>
 
 pd_end(self) == /\ pc[self] = "pd_end"
                 /\ IF jobs[dq[self]] = << >>
@@ -3733,9 +3809,9 @@ pd_end(self) == /\ pc[self] = "pd_end"
                                 nextPoll, ppItem, pjLive, ppStage, h, dead, 
                                 sti, rq, sq, sj, ww, rsq, bown, bwk, bi, bcur, 
                                 bw, bsp, jq, jj, jwk, fj, oq, oop, omode, oj, 
-                                yq, yop, tq, top, af, wf, wop, sf, sctx, xf, 
-                                cop, kj, pp, pwk, np, nbp, nres, dp, pf, pctx, 
-                                pq, pj, pd, nq >>
+                                yq, yop, yclaimed, tq, top, af, wf, wop, sf, 
+                                sctx, xf, cop, kj, pp, pwk, np, nbp, nres, dp, 
+                                pf, pctx, pq, pj, pd, nq >>
 
 pd_panic(self) == /\ pc[self] = "pd_panic"
                   /\ qstate' = [qstate EXCEPT ![dq[self]] = "Panicked"]
@@ -3758,9 +3834,10 @@ pd_panic(self) == /\ pc[self] = "pd_panic"
                                   chuteFn, pwTaken, nextPoll, ppItem, pjLive, 
                                   ppStage, h, dead, sti, rq, sq, sj, ww, rsq, 
                                   bown, bwk, bi, bcur, bw, bsp, jq, jj, jwk, 
-                                  fj, oq, oop, omode, oj, yq, yop, tq, top, af, 
-                                  wf, wop, sf, sctx, xf, cop, kj, pp, pwk, np, 
-                                  nbp, nres, dp, pf, pctx, pq, pj, pd, nq >>
+                                  fj, oq, oop, omode, oj, yq, yop, yclaimed, 
+                                  tq, top, af, wf, wop, sf, sctx, xf, cop, kj, 
+                                  pp, pwk, np, nbp, nres, dp, pf, pctx, pq, pj, 
+                                  pd, nq >>
 
 PoolDrain(self) == pd_deq(self) \/ z_pd_after(self) \/ pd_requeue(self)
                       \/ pd_park(self) \/ pd_end(self) \/ pd_panic(self)
@@ -3805,9 +3882,10 @@ ro_deq(self) == /\ pc[self] = "ro_deq"
                                 inClosed, inWaker, pollFn, chuteFn, pwTaken, 
                                 nextPoll, ppItem, pjLive, ppStage, h, dead, 
                                 sti, rq, sq, sj, ww, rsq, bown, bwk, bi, bcur, 
-                                bw, bsp, fj, dq, dj, yq, yop, tq, top, af, wf, 
-                                wop, sf, sctx, xf, cop, kj, pp, pwk, np, nbp, 
-                                nres, dp, pf, pctx, pq, pj, pd, nq >>
+                                bw, bsp, fj, dq, dj, yq, yop, yclaimed, tq, 
+                                top, af, wf, wop, sf, sctx, xf, cop, kj, pp, 
+                                pwk, np, nbp, nres, dp, pf, pctx, pq, pj, pd, 
+                                nq >>
 
 z_ro_after(self) == /\ pc[self] = "z_ro_after"
                     /\ IF rv[self] = 5
@@ -3847,10 +3925,10 @@ z_ro_after(self) == /\ pc[self] = "z_ro_after"
                                     chuteFn, pwTaken, nextPoll, ppItem, pjLive, 
                                     ppStage, h, dead, sti, rq, sq, sj, ww, rsq, 
                                     bown, bwk, bi, bcur, bw, bsp, jq, jj, jwk, 
-                                    dq, dj, oq, oop, omode, oj, yq, yop, tq, 
-                                    top, af, wf, wop, sf, sctx, xf, cop, kj, 
-                                    pp, pwk, np, nbp, nres, dp, pf, pctx, pq, 
-                                    pj, pd, nq >>
+                                    dq, dj, oq, oop, omode, oj, yq, yop, 
+                                    yclaimed, tq, top, af, wf, wop, sf, sctx, 
+                                    xf, cop, kj, pp, pwk, np, nbp, nres, dp, 
+                                    pf, pctx, pq, pj, pd, nq >>
 
 z_ro_done(self) == /\ pc[self] = "z_ro_done"
                    /\ IF omode[self] = "sd" /\ ~sdres[oop[self]]
@@ -3877,10 +3955,10 @@ z_ro_done(self) == /\ pc[self] = "z_ro_done"
                                    inWaker, pollFn, chuteFn, pwTaken, nextPoll, 
                                    ppItem, pjLive, ppStage, h, dead, sti, rq, 
                                    sq, sj, ww, rsq, bown, bwk, bi, bcur, bw, 
-                                   bsp, jq, jj, jwk, fj, dq, dj, yq, yop, tq, 
-                                   top, af, wf, wop, sf, sctx, xf, cop, kj, pp, 
-                                   pwk, np, nbp, nres, dp, pf, pctx, pq, pj, 
-                                   pd, nq >>
+                                   bsp, jq, jj, jwk, fj, dq, dj, yq, yop, 
+                                   yclaimed, tq, top, af, wf, wop, sf, sctx, 
+                                   xf, cop, kj, pp, pwk, np, nbp, nres, dp, pf, 
+                                   pctx, pq, pj, pd, nq >>
 
 z_ro_panic(self) == /\ pc[self] = "z_ro_panic"
                     /\ rv' = [rv EXCEPT ![self] = 9]
@@ -3905,9 +3983,9 @@ z_ro_panic(self) == /\ pc[self] = "z_ro_panic"
                                     pwTaken, nextPoll, ppItem, pjLive, ppStage, 
                                     h, dead, sti, rq, sq, sj, ww, rsq, bown, 
                                     bwk, bi, bcur, bw, bsp, jq, jj, jwk, fj, 
-                                    dq, dj, yq, yop, tq, top, af, wf, wop, sf, 
-                                    sctx, xf, cop, kj, pp, pwk, np, nbp, nres, 
-                                    dp, pf, pctx, pq, pj, pd, nq >>
+                                    dq, dj, yq, yop, yclaimed, tq, top, af, wf, 
+                                    wop, sf, sctx, xf, cop, kj, pp, pwk, np, 
+                                    nbp, nres, dp, pf, pctx, pq, pj, pd, nq >>
 
 ro_park(self) == /\ pc[self] = "ro_park"
                  /\ IF qstate[oq[self]] = "AwokenWhileRunning"
@@ -3923,7 +4001,7 @@ ro_park(self) == /\ pc[self] = "ro_park"
                                                                     \o stack[self]]
                             /\ pc' = [pc EXCEPT ![self] = "z_rj"]
                        ELSE /\ Assert(qstate[oq[self]] = "Running", 
-                                      "Failure of assertion at line 587, column 5.")
+                                      "Failure of assertion at line 590, column 5.")
                             /\ qstate' = [qstate EXCEPT ![oq[self]] = "WaitingForUnpark"]
                             /\ pc' = [pc EXCEPT ![self] = "ro_check"]
                             /\ UNCHANGED << stack, jq, jj, jwk >>
@@ -3941,9 +4019,9 @@ ro_park(self) == /\ pc[self] = "ro_park"
                                  chuteFn, pwTaken, nextPoll, ppItem, pjLive, 
                                  ppStage, h, dead, sti, rq, sq, sj, ww, rsq, 
                                  bown, bwk, bi, bcur, bw, bsp, fj, dq, dj, oq, 
-                                 oop, omode, oj, yq, yop, tq, top, af, wf, wop, 
-                                 sf, sctx, xf, cop, kj, pp, pwk, np, nbp, nres, 
-                                 dp, pf, pctx, pq, pj, pd, nq >>
+                                 oop, omode, oj, yq, yop, yclaimed, tq, top, 
+                                 af, wf, wop, sf, sctx, xf, cop, kj, pp, pwk, 
+                                 np, nbp, nres, dp, pf, pctx, pq, pj, pd, nq >>
 
 ro_check(self) == /\ pc[self] = "ro_check"
                   /\ IF qstate[oq[self]] \in {"Running", "AwokenWhileRunning"}
@@ -3958,7 +4036,7 @@ ro_check(self) == /\ pc[self] = "ro_check"
                                                                      \o stack[self]]
                              /\ pc' = [pc EXCEPT ![self] = "z_rj"]
                         ELSE /\ Assert(qstate[oq[self]] = "WaitingForUnpark", 
-                                       "Failure of assertion at line 594, column 12.")
+                                       "Failure of assertion at line 597, column 12.")
                              /\ pc' = [pc EXCEPT ![self] = "ro_parked"]
                              /\ UNCHANGED << stack, jq, jj, jwk >>
                   /\ UNCHANGED << qstate, qpoll, jobs, wakeBlocked, schedule, 
@@ -3975,9 +4053,9 @@ ro_check(self) == /\ pc[self] = "ro_check"
                                   chuteFn, pwTaken, nextPoll, ppItem, pjLive, 
                                   ppStage, h, dead, sti, rq, sq, sj, ww, rsq, 
                                   bown, bwk, bi, bcur, bw, bsp, fj, dq, dj, oq, 
-                                  oop, omode, oj, yq, yop, tq, top, af, wf, 
-                                  wop, sf, sctx, xf, cop, kj, pp, pwk, np, nbp, 
-                                  nres, dp, pf, pctx, pq, pj, pd, nq >>
+                                  oop, omode, oj, yq, yop, yclaimed, tq, top, 
+                                  af, wf, wop, sf, sctx, xf, cop, kj, pp, pwk, 
+                                  np, nbp, nres, dp, pf, pctx, pq, pj, pd, nq >>
 
 ro_parked(self) == /\ pc[self] = "ro_parked"
                    /\ parkTok[self]
@@ -3999,9 +4077,9 @@ ro_parked(self) == /\ pc[self] = "ro_parked"
                                    ppItem, pjLive, ppStage, stack, dead, sti, 
                                    rq, sq, sj, ww, rsq, bown, bwk, bi, bcur, 
                                    bw, bsp, jq, jj, jwk, fj, dq, dj, oq, oop, 
-                                   omode, oj, yq, yop, tq, top, af, wf, wop, 
-                                   sf, sctx, xf, cop, kj, pp, pwk, np, nbp, 
-                                   nres, dp, pf, pctx, pq, pj, pd, nq >>
+                                   omode, oj, yq, yop, yclaimed, tq, top, af, 
+                                   wf, wop, sf, sctx, xf, cop, kj, pp, pwk, np, 
+                                   nbp, nres, dp, pf, pctx, pq, pj, pd, nq >>
 
 RunOne(self) == ro_deq(self) \/ z_ro_after(self) \/ z_ro_done(self)
                    \/ z_ro_panic(self) \/ ro_park(self) \/ ro_check(self)
@@ -4011,10 +4089,11 @@ sy_decide(self) == /\ pc[self] = "sy_decide"
                    /\ IF qstate[yq[self]] \in {"Running", "WaitingForWake", "WaitingForUnpark", "WaitingForPoll", "AwokenWhileRunning"}
                          THEN /\ pc' = [pc EXCEPT ![self] = "sb_reg"]
                               /\ UNCHANGED << qstate, jkind, rv, stack, jq, jj, 
-                                              jwk, yq, yop >>
+                                              jwk, yq, yop, yclaimed >>
                          ELSE /\ IF qstate[yq[self]] = "Panicked"
                                     THEN /\ rv' = [rv EXCEPT ![self] = 2]
                                          /\ pc' = [pc EXCEPT ![self] = Head(stack[self]).pc]
+                                         /\ yclaimed' = [yclaimed EXCEPT ![self] = Head(stack[self]).yclaimed]
                                          /\ yq' = [yq EXCEPT ![self] = Head(stack[self]).yq]
                                          /\ yop' = [yop EXCEPT ![self] = Head(stack[self]).yop]
                                          /\ stack' = [stack EXCEPT ![self] = Tail(stack[self])]
@@ -4045,7 +4124,7 @@ sy_decide(self) == /\ pc[self] = "sy_decide"
                                                                                jq, 
                                                                                jj, 
                                                                                jwk >>
-                                         /\ UNCHANGED << rv, yq, yop >>
+                                         /\ UNCHANGED << rv, yq, yop, yclaimed >>
                    /\ UNCHANGED << qpoll, jobs, wakeBlocked, schedule, 
                                    pthreads, nspawned, palive, busy, 
                                    busyLocked, inbox, chanOpen, pfin, thrHeld, 
@@ -4084,9 +4163,9 @@ z_si_chk(self) == /\ pc[self] = "z_si_chk"
                                   ppStage, h, stack, dead, sti, rq, sq, sj, ww, 
                                   rsq, bown, bwk, bi, bcur, bw, bsp, jq, jj, 
                                   jwk, fj, dq, dj, oq, oop, omode, oj, yq, yop, 
-                                  tq, top, af, wf, wop, sf, sctx, xf, cop, kj, 
-                                  pp, pwk, np, nbp, nres, dp, pf, pctx, pq, pj, 
-                                  pd, nq >>
+                                  yclaimed, tq, top, af, wf, wop, sf, sctx, xf, 
+                                  cop, kj, pp, pwk, np, nbp, nres, dp, pf, 
+                                  pctx, pq, pj, pd, nq >>
 
 si_idle(self) == /\ pc[self] = "si_idle"
                  /\ qstate' = [qstate EXCEPT ![yq[self]] = "Idle"]
@@ -4110,16 +4189,21 @@ si_idle(self) == /\ pc[self] = "si_idle"
                                  chuteFn, pwTaken, nextPoll, ppItem, pjLive, 
                                  ppStage, h, dead, sti, sq, sj, ww, rsq, bown, 
                                  bwk, bi, bcur, bw, bsp, jq, jj, jwk, fj, dq, 
-                                 dj, oq, oop, omode, oj, yq, yop, tq, top, af, 
-                                 wf, wop, sf, sctx, xf, cop, kj, pp, pwk, np, 
-                                 nbp, nres, dp, pf, pctx, pq, pj, pd, nq >>
+                                 dj, oq, oop, omode, oj, yq, yop, yclaimed, tq, 
+                                 top, af, wf, wop, sf, sctx, xf, cop, kj, pp, 
+                                 pwk, np, nbp, nres, dp, pf, pctx, pq, pj, pd, 
+                                 nq >>
 
 z_si_ret(self) == /\ pc[self] = "z_si_ret"
-                  /\ rv' = [rv EXCEPT ![self] = 0]
-                  /\ pc' = [pc EXCEPT ![self] = Head(stack[self]).pc]
-                  /\ yq' = [yq EXCEPT ![self] = Head(stack[self]).yq]
-                  /\ yop' = [yop EXCEPT ![self] = Head(stack[self]).yop]
-                  /\ stack' = [stack EXCEPT ![self] = Tail(stack[self])]
+                  /\ IF Unw(yop[self])
+                        THEN /\ pc' = [pc EXCEPT ![self] = "sy_unw"]
+                             /\ UNCHANGED << rv, stack, yq, yop, yclaimed >>
+                        ELSE /\ rv' = [rv EXCEPT ![self] = 0]
+                             /\ pc' = [pc EXCEPT ![self] = Head(stack[self]).pc]
+                             /\ yclaimed' = [yclaimed EXCEPT ![self] = Head(stack[self]).yclaimed]
+                             /\ yq' = [yq EXCEPT ![self] = Head(stack[self]).yq]
+                             /\ yop' = [yop EXCEPT ![self] = Head(stack[self]).yop]
+                             /\ stack' = [stack EXCEPT ![self] = Tail(stack[self])]
                   /\ UNCHANGED << qstate, qpoll, jobs, wakeBlocked, schedule, 
                                   pthreads, nspawned, palive, busy, busyLocked, 
                                   inbox, chanOpen, pfin, thrHeld, maxThreads, 
@@ -4137,6 +4221,32 @@ z_si_ret(self) == /\ pc[self] = "z_si_ret"
                                   fj, dq, dj, oq, oop, omode, oj, tq, top, af, 
                                   wf, wop, sf, sctx, xf, cop, kj, pp, pwk, np, 
                                   nbp, nres, dp, pf, pctx, pq, pj, pd, nq >>
+
+sy_unw(self) == /\ pc[self] = "sy_unw"
+                /\ qstate' = [qstate EXCEPT ![yq[self]] = "Panicked"]
+                /\ rv' = [rv EXCEPT ![self] = 0]
+                /\ pc' = [pc EXCEPT ![self] = Head(stack[self]).pc]
+                /\ yclaimed' = [yclaimed EXCEPT ![self] = Head(stack[self]).yclaimed]
+                /\ yq' = [yq EXCEPT ![self] = Head(stack[self]).yq]
+                /\ yop' = [yop EXCEPT ![self] = Head(stack[self]).yop]
+                /\ stack' = [stack EXCEPT ![self] = Tail(stack[self])]
+                /\ UNCHANGED << qpoll, jobs, wakeBlocked, schedule, pthreads, 
+                                nspawned, palive, busy, busyLocked, inbox, 
+                                chanOpen, pfin, thrHeld, maxThreads, jkind, 
+                                jaw, fres, fwaker, gfired, gwaker, gthreads, 
+                                gwhist, dwSt, dwW, dblTaken, dblW1, dblW2, 
+                                nextDW, ready, cwait, cnotif, cvHeld, sdres, 
+                                jpanic, sfst, slotSt, qrSent, qrWaker, dnState, 
+                                dnWaker, parkTok, rwb, rneed, dsl, atomic, 
+                                strong, ppPending, ppClosed, ppNotify, ppNC, 
+                                ppBP, ppDepth, ppAlive, ppHeld, inItems, 
+                                inClosed, inWaker, pollFn, chuteFn, pwTaken, 
+                                nextPoll, ppItem, pjLive, ppStage, h, dead, 
+                                sti, rq, sq, sj, ww, rsq, bown, bwk, bi, bcur, 
+                                bw, bsp, jq, jj, jwk, fj, dq, dj, oq, oop, 
+                                omode, oj, tq, top, af, wf, wop, sf, sctx, xf, 
+                                cop, kj, pp, pwk, np, nbp, nres, dp, pf, pctx, 
+                                pq, pj, pd, nq >>
 
 sd_push(self) == /\ pc[self] = "sd_push"
                  /\ jkind' = [jkind EXCEPT ![yop[self]] = "syncdrain"]
@@ -4167,9 +4277,9 @@ sd_push(self) == /\ pc[self] = "sd_push"
                                  chuteFn, pwTaken, nextPoll, ppItem, pjLive, 
                                  ppStage, h, dead, sti, rq, sq, sj, ww, rsq, 
                                  bown, bwk, bi, bcur, bw, bsp, jq, jj, jwk, fj, 
-                                 dq, dj, yq, yop, tq, top, af, wf, wop, sf, 
-                                 sctx, xf, cop, kj, pp, pwk, np, nbp, nres, dp, 
-                                 pf, pctx, pq, pj, pd, nq >>
+                                 dq, dj, yq, yop, yclaimed, tq, top, af, wf, 
+                                 wop, sf, sctx, xf, cop, kj, pp, pwk, np, nbp, 
+                                 nres, dp, pf, pctx, pq, pj, pd, nq >>
 
 z_sd_chk(self) == /\ pc[self] = "z_sd_chk"
                   /\ IF rv[self] = 9
@@ -4190,9 +4300,9 @@ z_sd_chk(self) == /\ pc[self] = "z_sd_chk"
                                   ppStage, h, stack, dead, sti, rq, sq, sj, ww, 
                                   rsq, bown, bwk, bi, bcur, bw, bsp, jq, jj, 
                                   jwk, fj, dq, dj, oq, oop, omode, oj, yq, yop, 
-                                  tq, top, af, wf, wop, sf, sctx, xf, cop, kj, 
-                                  pp, pwk, np, nbp, nres, dp, pf, pctx, pq, pj, 
-                                  pd, nq >>
+                                  yclaimed, tq, top, af, wf, wop, sf, sctx, xf, 
+                                  cop, kj, pp, pwk, np, nbp, nres, dp, pf, 
+                                  pctx, pq, pj, pd, nq >>
 
 sd_idle(self) == /\ pc[self] = "sd_idle"
                  /\ qstate' = [qstate EXCEPT ![yq[self]] = "Idle"]
@@ -4216,9 +4326,10 @@ sd_idle(self) == /\ pc[self] = "sd_idle"
                                  chuteFn, pwTaken, nextPoll, ppItem, pjLive, 
                                  ppStage, h, dead, sti, sq, sj, ww, rsq, bown, 
                                  bwk, bi, bcur, bw, bsp, jq, jj, jwk, fj, dq, 
-                                 dj, oq, oop, omode, oj, yq, yop, tq, top, af, 
-                                 wf, wop, sf, sctx, xf, cop, kj, pp, pwk, np, 
-                                 nbp, nres, dp, pf, pctx, pq, pj, pd, nq >>
+                                 dj, oq, oop, omode, oj, yq, yop, yclaimed, tq, 
+                                 top, af, wf, wop, sf, sctx, xf, cop, kj, pp, 
+                                 pwk, np, nbp, nres, dp, pf, pctx, pq, pj, pd, 
+                                 nq >>
 
 sb_reg(self) == /\ pc[self] = "sb_reg"
                 /\ wakeBlocked' = [wakeBlocked EXCEPT ![yq[self]] = Append(wakeBlocked[yq[self]], yop[self])]
@@ -4238,9 +4349,9 @@ sb_reg(self) == /\ pc[self] = "sb_reg"
                                 nextPoll, ppItem, pjLive, ppStage, h, stack, 
                                 dead, sti, rq, sq, sj, ww, rsq, bown, bwk, bi, 
                                 bcur, bw, bsp, jq, jj, jwk, fj, dq, dj, oq, 
-                                oop, omode, oj, yq, yop, tq, top, af, wf, wop, 
-                                sf, sctx, xf, cop, kj, pp, pwk, np, nbp, nres, 
-                                dp, pf, pctx, pq, pj, pd, nq >>
+                                oop, omode, oj, yq, yop, yclaimed, tq, top, af, 
+                                wf, wop, sf, sctx, xf, cop, kj, pp, pwk, np, 
+                                nbp, nres, dp, pf, pctx, pq, pj, pd, nq >>
 
 sb_push(self) == /\ pc[self] = "sb_push"
                  /\ jkind' = [jkind EXCEPT ![yop[self]] = "syncbg"]
@@ -4268,50 +4379,82 @@ sb_push(self) == /\ pc[self] = "sb_push"
                                  chuteFn, pwTaken, nextPoll, ppItem, pjLive, 
                                  ppStage, h, dead, sti, sq, sj, ww, rsq, bown, 
                                  bwk, bi, bcur, bw, bsp, jq, jj, jwk, fj, dq, 
-                                 dj, oq, oop, omode, oj, yq, yop, tq, top, af, 
-                                 wf, wop, sf, sctx, xf, cop, kj, pp, pwk, np, 
-                                 nbp, nres, dp, pf, pctx, pq, pj, pd, nq >>
+                                 dj, oq, oop, omode, oj, yq, yop, yclaimed, tq, 
+                                 top, af, wf, wop, sf, sctx, xf, cop, kj, pp, 
+                                 pwk, np, nbp, nres, dp, pf, pctx, pq, pj, pd, 
+                                 nq >>
 
 sb_lock(self) == /\ pc[self] = "sb_lock"
-                 /\ IF ready[yop[self]]
-                       THEN /\ cvHeld' = [cvHeld EXCEPT ![yop[self]] = FALSE]
-                            /\ pc' = [pc EXCEPT ![self] = "sb_fin"]
-                            /\ UNCHANGED << qstate, schedule, cwait, cnotif >>
-                       ELSE /\ IF FixD3 /\ Claimable(yq[self])
-                                  THEN /\ qstate' = [qstate EXCEPT ![yq[self]] = "Running"]
-                                       /\ schedule' = SelectSeq(schedule, LAMBDA x : x # yq[self])
-                                       /\ pc' = [pc EXCEPT ![self] = "sb_chk"]
-                                       /\ UNCHANGED << cwait, cnotif >>
-                                  ELSE /\ cwait' = [cwait EXCEPT ![yop[self]] = TRUE]
-                                       /\ cnotif' = [cnotif EXCEPT ![yop[self]] = FALSE]
-                                       /\ pc' = [pc EXCEPT ![self] = "sb_wait"]
-                                       /\ UNCHANGED << qstate, schedule >>
-                            /\ UNCHANGED cvHeld
-                 /\ UNCHANGED << qpoll, jobs, wakeBlocked, pthreads, nspawned, 
-                                 palive, busy, busyLocked, inbox, chanOpen, 
-                                 pfin, thrHeld, maxThreads, jkind, jaw, fres, 
-                                 fwaker, gfired, gwaker, gthreads, gwhist, 
-                                 dwSt, dwW, dblTaken, dblW1, dblW2, nextDW, 
-                                 ready, sdres, jpanic, sfst, slotSt, qrSent, 
-                                 qrWaker, dnState, dnWaker, parkTok, rv, rwb, 
-                                 rneed, dsl, atomic, strong, ppPending, 
-                                 ppClosed, ppNotify, ppNC, ppBP, ppDepth, 
-                                 ppAlive, ppHeld, inItems, inClosed, inWaker, 
-                                 pollFn, chuteFn, pwTaken, nextPoll, ppItem, 
-                                 pjLive, ppStage, h, stack, dead, sti, rq, sq, 
-                                 sj, ww, rsq, bown, bwk, bi, bcur, bw, bsp, jq, 
-                                 jj, jwk, fj, dq, dj, oq, oop, omode, oj, yq, 
-                                 yop, tq, top, af, wf, wop, sf, sctx, xf, cop, 
-                                 kj, pp, pwk, np, nbp, nres, dp, pf, pctx, pq, 
-                                 pj, pd, nq >>
+                 /\ IF yclaimed[self] /\ Unw(yop[self])
+                       THEN /\ qstate' = [qstate EXCEPT ![yq[self]] = "Panicked"]
+                       ELSE /\ TRUE
+                            /\ UNCHANGED qstate
+                 /\ yclaimed' = [yclaimed EXCEPT ![self] = FALSE]
+                 /\ pc' = [pc EXCEPT ![self] = "z_sb_lock2"]
+                 /\ UNCHANGED << qpoll, jobs, wakeBlocked, schedule, pthreads, 
+                                 nspawned, palive, busy, busyLocked, inbox, 
+                                 chanOpen, pfin, thrHeld, maxThreads, jkind, 
+                                 jaw, fres, fwaker, gfired, gwaker, gthreads, 
+                                 gwhist, dwSt, dwW, dblTaken, dblW1, dblW2, 
+                                 nextDW, ready, cwait, cnotif, cvHeld, sdres, 
+                                 jpanic, sfst, slotSt, qrSent, qrWaker, 
+                                 dnState, dnWaker, parkTok, rv, rwb, rneed, 
+                                 dsl, atomic, strong, ppPending, ppClosed, 
+                                 ppNotify, ppNC, ppBP, ppDepth, ppAlive, 
+                                 ppHeld, inItems, inClosed, inWaker, pollFn, 
+                                 chuteFn, pwTaken, nextPoll, ppItem, pjLive, 
+                                 ppStage, h, stack, dead, sti, rq, sq, sj, ww, 
+                                 rsq, bown, bwk, bi, bcur, bw, bsp, jq, jj, 
+                                 jwk, fj, dq, dj, oq, oop, omode, oj, yq, yop, 
+                                 tq, top, af, wf, wop, sf, sctx, xf, cop, kj, 
+                                 pp, pwk, np, nbp, nres, dp, pf, pctx, pq, pj, 
+                                 pd, nq >>
+
+z_sb_lock2(self) == /\ pc[self] = "z_sb_lock2"
+                    /\ IF ready[yop[self]]
+                          THEN /\ cvHeld' = [cvHeld EXCEPT ![yop[self]] = FALSE]
+                               /\ pc' = [pc EXCEPT ![self] = "sb_fin"]
+                               /\ UNCHANGED << qstate, schedule, cwait, cnotif, 
+                                               yclaimed >>
+                          ELSE /\ IF FixD3 /\ Claimable(yq[self])
+                                     THEN /\ qstate' = [qstate EXCEPT ![yq[self]] = "Running"]
+                                          /\ schedule' = SelectSeq(schedule, LAMBDA x : x # yq[self])
+                                          /\ yclaimed' = [yclaimed EXCEPT ![self] = TRUE]
+                                          /\ pc' = [pc EXCEPT ![self] = "sb_chk"]
+                                          /\ UNCHANGED << cwait, cnotif >>
+                                     ELSE /\ cwait' = [cwait EXCEPT ![yop[self]] = TRUE]
+                                          /\ cnotif' = [cnotif EXCEPT ![yop[self]] = FALSE]
+                                          /\ pc' = [pc EXCEPT ![self] = "sb_wait"]
+                                          /\ UNCHANGED << qstate, schedule, 
+                                                          yclaimed >>
+                               /\ UNCHANGED cvHeld
+                    /\ UNCHANGED << qpoll, jobs, wakeBlocked, pthreads, 
+                                    nspawned, palive, busy, busyLocked, inbox, 
+                                    chanOpen, pfin, thrHeld, maxThreads, jkind, 
+                                    jaw, fres, fwaker, gfired, gwaker, 
+                                    gthreads, gwhist, dwSt, dwW, dblTaken, 
+                                    dblW1, dblW2, nextDW, ready, sdres, jpanic, 
+                                    sfst, slotSt, qrSent, qrWaker, dnState, 
+                                    dnWaker, parkTok, rv, rwb, rneed, dsl, 
+                                    atomic, strong, ppPending, ppClosed, 
+                                    ppNotify, ppNC, ppBP, ppDepth, ppAlive, 
+                                    ppHeld, inItems, inClosed, inWaker, pollFn, 
+                                    chuteFn, pwTaken, nextPoll, ppItem, pjLive, 
+                                    ppStage, h, stack, dead, sti, rq, sq, sj, 
+                                    ww, rsq, bown, bwk, bi, bcur, bw, bsp, jq, 
+                                    jj, jwk, fj, dq, dj, oq, oop, omode, oj, 
+                                    yq, yop, tq, top, af, wf, wop, sf, sctx, 
+                                    xf, cop, kj, pp, pwk, np, nbp, nres, dp, 
+                                    pf, pctx, pq, pj, pd, nq >>
 
 sb_claim(self) == /\ pc[self] = "sb_claim"
                   /\ IF qstate[yq[self]] \in {"Pending", "Idle"}
                         THEN /\ qstate' = [qstate EXCEPT ![yq[self]] = "Running"]
                              /\ schedule' = SelectSeq(schedule, LAMBDA x : x # yq[self])
+                             /\ yclaimed' = [yclaimed EXCEPT ![self] = TRUE]
                              /\ pc' = [pc EXCEPT ![self] = "sb_chk"]
                         ELSE /\ pc' = [pc EXCEPT ![self] = "sb_lock"]
-                             /\ UNCHANGED << qstate, schedule >>
+                             /\ UNCHANGED << qstate, schedule, yclaimed >>
                   /\ UNCHANGED << qpoll, jobs, wakeBlocked, pthreads, nspawned, 
                                   palive, busy, busyLocked, inbox, chanOpen, 
                                   pfin, thrHeld, maxThreads, jkind, jaw, fres, 
@@ -4360,10 +4503,10 @@ sb_chk(self) == /\ pc[self] = "sb_chk"
                                 inClosed, inWaker, pollFn, chuteFn, pwTaken, 
                                 nextPoll, ppItem, pjLive, ppStage, h, dead, 
                                 sti, rq, sq, sj, ww, rsq, bown, bwk, bi, bcur, 
-                                bw, bsp, jq, jj, jwk, fj, dq, dj, yq, yop, tq, 
-                                top, af, wf, wop, sf, sctx, xf, cop, kj, pp, 
-                                pwk, np, nbp, nres, dp, pf, pctx, pq, pj, pd, 
-                                nq >>
+                                bw, bsp, jq, jj, jwk, fj, dq, dj, yq, yop, 
+                                yclaimed, tq, top, af, wf, wop, sf, sctx, xf, 
+                                cop, kj, pp, pwk, np, nbp, nres, dp, pf, pctx, 
+                                pq, pj, pd, nq >>
 
 sb_idle(self) == /\ pc[self] = "sb_idle"
                  /\ qstate' = [qstate EXCEPT ![yq[self]] = "Idle"]
@@ -4387,23 +4530,27 @@ sb_idle(self) == /\ pc[self] = "sb_idle"
                                  chuteFn, pwTaken, nextPoll, ppItem, pjLive, 
                                  ppStage, h, dead, sti, sq, sj, ww, rsq, bown, 
                                  bwk, bi, bcur, bw, bsp, jq, jj, jwk, fj, dq, 
-                                 dj, oq, oop, omode, oj, yq, yop, tq, top, af, 
-                                 wf, wop, sf, sctx, xf, cop, kj, pp, pwk, np, 
-                                 nbp, nres, dp, pf, pctx, pq, pj, pd, nq >>
+                                 dj, oq, oop, omode, oj, yq, yop, yclaimed, tq, 
+                                 top, af, wf, wop, sf, sctx, xf, cop, kj, pp, 
+                                 pwk, np, nbp, nres, dp, pf, pctx, pq, pj, pd, 
+                                 nq >>
 
 z_sb_chk(self) == /\ pc[self] = "z_sb_chk"
                   /\ IF rv[self] = 9
                         THEN /\ cvHeld' = [cvHeld EXCEPT ![yop[self]] = (yop[self] \in SeqSet(jobs[yq[self]]))]
                              /\ IF FixD6
                                    THEN /\ pc' = [pc EXCEPT ![self] = "sy_panic"]
-                                        /\ UNCHANGED << rv, stack, yq, yop >>
+                                        /\ UNCHANGED << rv, stack, yq, yop, 
+                                                        yclaimed >>
                                    ELSE /\ rv' = [rv EXCEPT ![self] = 2]
                                         /\ pc' = [pc EXCEPT ![self] = Head(stack[self]).pc]
+                                        /\ yclaimed' = [yclaimed EXCEPT ![self] = Head(stack[self]).yclaimed]
                                         /\ yq' = [yq EXCEPT ![self] = Head(stack[self]).yq]
                                         /\ yop' = [yop EXCEPT ![self] = Head(stack[self]).yop]
                                         /\ stack' = [stack EXCEPT ![self] = Tail(stack[self])]
                         ELSE /\ pc' = [pc EXCEPT ![self] = "sb_chk"]
-                             /\ UNCHANGED << cvHeld, rv, stack, yq, yop >>
+                             /\ UNCHANGED << cvHeld, rv, stack, yq, yop, 
+                                             yclaimed >>
                   /\ UNCHANGED << qstate, qpoll, jobs, wakeBlocked, schedule, 
                                   pthreads, nspawned, palive, busy, busyLocked, 
                                   inbox, chanOpen, pfin, thrHeld, maxThreads, 
@@ -4430,23 +4577,26 @@ sb_wait(self) == /\ pc[self] = "sb_wait"
                             /\ cnotif' = [cnotif EXCEPT ![yop[self]] = FALSE]
                             /\ cvHeld' = [cvHeld EXCEPT ![yop[self]] = FALSE]
                             /\ pc' = [pc EXCEPT ![self] = "sb_fin"]
-                            /\ UNCHANGED << qstate, schedule >>
+                            /\ UNCHANGED << qstate, schedule, yclaimed >>
                        ELSE /\ IF ~FixD3
                                   THEN /\ cwait' = [cwait EXCEPT ![yop[self]] = FALSE]
                                        /\ cnotif' = [cnotif EXCEPT ![yop[self]] = FALSE]
                                        /\ pc' = [pc EXCEPT ![self] = "sb_claim"]
-                                       /\ UNCHANGED << qstate, schedule >>
+                                       /\ UNCHANGED << qstate, schedule, 
+                                                       yclaimed >>
                                   ELSE /\ IF Claimable(yq[self])
                                              THEN /\ cwait' = [cwait EXCEPT ![yop[self]] = FALSE]
                                                   /\ cnotif' = [cnotif EXCEPT ![yop[self]] = FALSE]
                                                   /\ qstate' = [qstate EXCEPT ![yq[self]] = "Running"]
                                                   /\ schedule' = SelectSeq(schedule, LAMBDA x : x # yq[self])
+                                                  /\ yclaimed' = [yclaimed EXCEPT ![self] = TRUE]
                                                   /\ pc' = [pc EXCEPT ![self] = "sb_chk"]
                                              ELSE /\ cnotif' = [cnotif EXCEPT ![yop[self]] = FALSE]
                                                   /\ pc' = [pc EXCEPT ![self] = "sb_wait"]
                                                   /\ UNCHANGED << qstate, 
                                                                   schedule, 
-                                                                  cwait >>
+                                                                  cwait, 
+                                                                  yclaimed >>
                             /\ UNCHANGED cvHeld
                  /\ UNCHANGED << qpoll, jobs, wakeBlocked, pthreads, nspawned, 
                                  palive, busy, busyLocked, inbox, chanOpen, 
@@ -4470,6 +4620,7 @@ sb_fin(self) == /\ pc[self] = "sb_fin"
                 /\ wakeBlocked' = [wakeBlocked EXCEPT ![yq[self]] = SelectSeq(wakeBlocked[yq[self]], LAMBDA x : (x # yop[self] /\ CvAlive(x)) \/ (x = yop[self] /\ \E t \in Procs : yop[self] \in SeqSet(rwb[t])))]
                 /\ rv' = [rv EXCEPT ![self] = 0]
                 /\ pc' = [pc EXCEPT ![self] = Head(stack[self]).pc]
+                /\ yclaimed' = [yclaimed EXCEPT ![self] = Head(stack[self]).yclaimed]
                 /\ yq' = [yq EXCEPT ![self] = Head(stack[self]).yq]
                 /\ yop' = [yop EXCEPT ![self] = Head(stack[self]).yop]
                 /\ stack' = [stack EXCEPT ![self] = Tail(stack[self])]
@@ -4495,6 +4646,7 @@ sy_panic(self) == /\ pc[self] = "sy_panic"
                   /\ qstate' = [qstate EXCEPT ![yq[self]] = "Panicked"]
                   /\ rv' = [rv EXCEPT ![self] = 2]
                   /\ pc' = [pc EXCEPT ![self] = Head(stack[self]).pc]
+                  /\ yclaimed' = [yclaimed EXCEPT ![self] = Head(stack[self]).yclaimed]
                   /\ yq' = [yq EXCEPT ![self] = Head(stack[self]).yq]
                   /\ yop' = [yop EXCEPT ![self] = Head(stack[self]).yop]
                   /\ stack' = [stack EXCEPT ![self] = Tail(stack[self])]
@@ -4517,11 +4669,12 @@ sy_panic(self) == /\ pc[self] = "sy_panic"
                                   nbp, nres, dp, pf, pctx, pq, pj, pd, nq >>
 
 Sync(self) == sy_decide(self) \/ z_si_chk(self) \/ si_idle(self)
-                 \/ z_si_ret(self) \/ sd_push(self) \/ z_sd_chk(self)
-                 \/ sd_idle(self) \/ sb_reg(self) \/ sb_push(self)
-                 \/ sb_lock(self) \/ sb_claim(self) \/ sb_chk(self)
-                 \/ sb_idle(self) \/ z_sb_chk(self) \/ sb_wait(self)
-                 \/ sb_fin(self) \/ sy_panic(self)
+                 \/ z_si_ret(self) \/ sy_unw(self) \/ sd_push(self)
+                 \/ z_sd_chk(self) \/ sd_idle(self) \/ sb_reg(self)
+                 \/ sb_push(self) \/ sb_lock(self) \/ z_sb_lock2(self)
+                 \/ sb_claim(self) \/ sb_chk(self) \/ sb_idle(self)
+                 \/ z_sb_chk(self) \/ sb_wait(self) \/ sb_fin(self)
+                 \/ sy_panic(self)
 
 ts_decide(self) == /\ pc[self] = "ts_decide"
                    /\ IF qstate[tq[self]] = "Idle"
@@ -4576,9 +4729,9 @@ ts_decide(self) == /\ pc[self] = "ts_decide"
                                    ppItem, pjLive, ppStage, h, dead, sti, rq, 
                                    sq, sj, ww, rsq, bown, bwk, bi, bcur, bw, 
                                    bsp, fj, dq, dj, oq, oop, omode, oj, yq, 
-                                   yop, af, wf, wop, sf, sctx, xf, cop, kj, pp, 
-                                   pwk, np, nbp, nres, dp, pf, pctx, pq, pj, 
-                                   pd, nq >>
+                                   yop, yclaimed, af, wf, wop, sf, sctx, xf, 
+                                   cop, kj, pp, pwk, np, nbp, nres, dp, pf, 
+                                   pctx, pq, pj, pd, nq >>
 
 z_ts_chk(self) == /\ pc[self] = "z_ts_chk"
                   /\ IF rv[self] = 9
@@ -4599,9 +4752,9 @@ z_ts_chk(self) == /\ pc[self] = "z_ts_chk"
                                   ppStage, h, stack, dead, sti, rq, sq, sj, ww, 
                                   rsq, bown, bwk, bi, bcur, bw, bsp, jq, jj, 
                                   jwk, fj, dq, dj, oq, oop, omode, oj, yq, yop, 
-                                  tq, top, af, wf, wop, sf, sctx, xf, cop, kj, 
-                                  pp, pwk, np, nbp, nres, dp, pf, pctx, pq, pj, 
-                                  pd, nq >>
+                                  yclaimed, tq, top, af, wf, wop, sf, sctx, xf, 
+                                  cop, kj, pp, pwk, np, nbp, nres, dp, pf, 
+                                  pctx, pq, pj, pd, nq >>
 
 ts_idle(self) == /\ pc[self] = "ts_idle"
                  /\ qstate' = [qstate EXCEPT ![tq[self]] = "Idle"]
@@ -4625,9 +4778,10 @@ ts_idle(self) == /\ pc[self] = "ts_idle"
                                  chuteFn, pwTaken, nextPoll, ppItem, pjLive, 
                                  ppStage, h, dead, sti, sq, sj, ww, rsq, bown, 
                                  bwk, bi, bcur, bw, bsp, jq, jj, jwk, fj, dq, 
-                                 dj, oq, oop, omode, oj, yq, yop, tq, top, af, 
-                                 wf, wop, sf, sctx, xf, cop, kj, pp, pwk, np, 
-                                 nbp, nres, dp, pf, pctx, pq, pj, pd, nq >>
+                                 dj, oq, oop, omode, oj, yq, yop, yclaimed, tq, 
+                                 top, af, wf, wop, sf, sctx, xf, cop, kj, pp, 
+                                 pwk, np, nbp, nres, dp, pf, pctx, pq, pj, pd, 
+                                 nq >>
 
 z_ts_ret(self) == /\ pc[self] = "z_ts_ret"
                   /\ rv' = [rv EXCEPT ![self] = 0]
@@ -4649,9 +4803,10 @@ z_ts_ret(self) == /\ pc[self] = "z_ts_ret"
                                   chuteFn, pwTaken, nextPoll, ppItem, pjLive, 
                                   ppStage, h, dead, sti, rq, sq, sj, ww, rsq, 
                                   bown, bwk, bi, bcur, bw, bsp, jq, jj, jwk, 
-                                  fj, dq, dj, oq, oop, omode, oj, yq, yop, af, 
-                                  wf, wop, sf, sctx, xf, cop, kj, pp, pwk, np, 
-                                  nbp, nres, dp, pf, pctx, pq, pj, pd, nq >>
+                                  fj, dq, dj, oq, oop, omode, oj, yq, yop, 
+                                  yclaimed, af, wf, wop, sf, sctx, xf, cop, kj, 
+                                  pp, pwk, np, nbp, nres, dp, pf, pctx, pq, pj, 
+                                  pd, nq >>
 
 ts_panic(self) == /\ pc[self] = "ts_panic"
                   /\ qstate' = [qstate EXCEPT ![tq[self]] = "Panicked"]
@@ -4674,9 +4829,10 @@ ts_panic(self) == /\ pc[self] = "ts_panic"
                                   chuteFn, pwTaken, nextPoll, ppItem, pjLive, 
                                   ppStage, h, dead, sti, rq, sq, sj, ww, rsq, 
                                   bown, bwk, bi, bcur, bw, bsp, jq, jj, jwk, 
-                                  fj, dq, dj, oq, oop, omode, oj, yq, yop, af, 
-                                  wf, wop, sf, sctx, xf, cop, kj, pp, pwk, np, 
-                                  nbp, nres, dp, pf, pctx, pq, pj, pd, nq >>
+                                  fj, dq, dj, oq, oop, omode, oj, yq, yop, 
+                                  yclaimed, af, wf, wop, sf, sctx, xf, cop, kj, 
+                                  pp, pwk, np, nbp, nres, dp, pf, pctx, pq, pj, 
+                                  pd, nq >>
 
 TrySync(self) == ts_decide(self) \/ z_ts_chk(self) \/ ts_idle(self)
                     \/ z_ts_ret(self) \/ ts_panic(self)
@@ -4722,9 +4878,9 @@ z_aw_poll(self) == /\ pc[self] = "z_aw_poll"
                                    nextPoll, ppItem, pjLive, ppStage, h, dead, 
                                    sti, rq, sq, sj, ww, rsq, bown, bwk, bi, 
                                    bcur, bw, bsp, jq, jj, jwk, fj, dq, dj, oq, 
-                                   oop, omode, oj, yq, yop, tq, top, af, wf, 
-                                   wop, xf, cop, kj, pp, pwk, np, nbp, nres, 
-                                   dp, nq >>
+                                   oop, omode, oj, yq, yop, yclaimed, tq, top, 
+                                   af, wf, wop, xf, cop, kj, pp, pwk, np, nbp, 
+                                   nres, dp, nq >>
 
 z_aw_after(self) == /\ pc[self] = "z_aw_after"
                     /\ IF rv[self] = 5
@@ -4753,9 +4909,9 @@ z_aw_after(self) == /\ pc[self] = "z_aw_after"
                                     ppStage, dead, sti, rq, sq, sj, ww, rsq, 
                                     bown, bwk, bi, bcur, bw, bsp, jq, jj, jwk, 
                                     fj, dq, dj, oq, oop, omode, oj, yq, yop, 
-                                    tq, top, wf, wop, sf, sctx, xf, cop, kj, 
-                                    pp, pwk, np, nbp, nres, dp, pf, pctx, pq, 
-                                    pj, pd, nq >>
+                                    yclaimed, tq, top, wf, wop, sf, sctx, xf, 
+                                    cop, kj, pp, pwk, np, nbp, nres, dp, pf, 
+                                    pctx, pq, pj, pd, nq >>
 
 aw_park(self) == /\ pc[self] = "aw_park"
                  /\ parkTok[self]
@@ -4775,9 +4931,9 @@ aw_park(self) == /\ pc[self] = "aw_park"
                                  nextPoll, ppItem, pjLive, ppStage, h, stack, 
                                  dead, sti, rq, sq, sj, ww, rsq, bown, bwk, bi, 
                                  bcur, bw, bsp, jq, jj, jwk, fj, dq, dj, oq, 
-                                 oop, omode, oj, yq, yop, tq, top, af, wf, wop, 
-                                 sf, sctx, xf, cop, kj, pp, pwk, np, nbp, nres, 
-                                 dp, pf, pctx, pq, pj, pd, nq >>
+                                 oop, omode, oj, yq, yop, yclaimed, tq, top, 
+                                 af, wf, wop, sf, sctx, xf, cop, kj, pp, pwk, 
+                                 np, nbp, nres, dp, pf, pctx, pq, pj, pd, nq >>
 
 Await(self) == z_aw_poll(self) \/ z_aw_after(self) \/ aw_park(self)
 
@@ -4790,7 +4946,7 @@ fs_take(self) == /\ pc[self] = "fs_take"
                             /\ wf' = [wf EXCEPT ![self] = Head(stack[self]).wf]
                             /\ wop' = [wop EXCEPT ![self] = Head(stack[self]).wop]
                             /\ stack' = [stack EXCEPT ![self] = Tail(stack[self])]
-                            /\ UNCHANGED << yq, yop >>
+                            /\ UNCHANGED << yq, yop, yclaimed >>
                        ELSE /\ IF fres[wf[self]] = "cancelled"
                                   THEN /\ fres' = [fres EXCEPT ![wf[self]] = "taken"]
                                        /\ h' = ObsResolved(h, self, wf[self], 4)
@@ -4799,14 +4955,16 @@ fs_take(self) == /\ pc[self] = "fs_take"
                                        /\ wf' = [wf EXCEPT ![self] = Head(stack[self]).wf]
                                        /\ wop' = [wop EXCEPT ![self] = Head(stack[self]).wop]
                                        /\ stack' = [stack EXCEPT ![self] = Tail(stack[self])]
-                                       /\ UNCHANGED << yq, yop >>
+                                       /\ UNCHANGED << yq, yop, yclaimed >>
                                   ELSE /\ /\ stack' = [stack EXCEPT ![self] = << [ procedure |->  "Sync",
                                                                                    pc        |->  "z_fs_after",
+                                                                                   yclaimed  |->  yclaimed[self],
                                                                                    yq        |->  yq[self],
                                                                                    yop       |->  yop[self] ] >>
                                                                                \o stack[self]]
                                           /\ yop' = [yop EXCEPT ![self] = wop[self]]
                                           /\ yq' = [yq EXCEPT ![self] = O(wf[self])]
+                                       /\ yclaimed' = [yclaimed EXCEPT ![self] = FALSE]
                                        /\ pc' = [pc EXCEPT ![self] = "sy_decide"]
                                        /\ UNCHANGED << fres, rv, h, wf, wop >>
                  /\ UNCHANGED << qstate, qpoll, jobs, wakeBlocked, schedule, 
@@ -4852,9 +5010,9 @@ z_fs_after(self) == /\ pc[self] = "z_fs_after"
                                     ppStage, dead, sti, rq, sq, sj, ww, rsq, 
                                     bown, bwk, bi, bcur, bw, bsp, jq, jj, jwk, 
                                     fj, dq, dj, oq, oop, omode, oj, yq, yop, 
-                                    tq, top, af, sf, sctx, xf, cop, kj, pp, 
-                                    pwk, np, nbp, nres, dp, pf, pctx, pq, pj, 
-                                    pd, nq >>
+                                    yclaimed, tq, top, af, sf, sctx, xf, cop, 
+                                    kj, pp, pwk, np, nbp, nres, dp, pf, pctx, 
+                                    pq, pj, pd, nq >>
 
 WaitSync(self) == fs_take(self) \/ z_fs_after(self)
 
@@ -4933,8 +5091,8 @@ z_ps(self) == /\ pc[self] = "z_ps"
                               inWaker, pollFn, chuteFn, pwTaken, nextPoll, 
                               ppItem, pjLive, ppStage, h, dead, sti, rq, sq, 
                               sj, ww, jq, jj, jwk, fj, dq, dj, oq, oop, omode, 
-                              oj, yq, yop, tq, top, af, wf, wop, xf, cop, kj, 
-                              pp, pwk, np, nbp, nres, dp, nq >>
+                              oj, yq, yop, yclaimed, tq, top, af, wf, wop, xf, 
+                              cop, kj, pp, pwk, np, nbp, nres, dp, nq >>
 
 z_ps_q(self) == /\ pc[self] = "z_ps_q"
                 /\ IF rv[self] \in {2, 4}
@@ -4990,9 +5148,9 @@ z_ps_q(self) == /\ pc[self] = "z_ps_q"
                                 inWaker, pollFn, chuteFn, pwTaken, nextPoll, 
                                 ppItem, pjLive, ppStage, dead, sti, rq, sq, sj, 
                                 ww, jq, jj, jwk, fj, dq, dj, oq, oop, omode, 
-                                oj, yq, yop, tq, top, af, wf, wop, xf, cop, kj, 
-                                pp, pwk, np, nbp, nres, dp, pf, pctx, pq, pj, 
-                                pd, nq >>
+                                oj, yq, yop, yclaimed, tq, top, af, wf, wop, 
+                                xf, cop, kj, pp, pwk, np, nbp, nres, dp, pf, 
+                                pctx, pq, pj, pd, nq >>
 
 z_ps_f(self) == /\ pc[self] = "z_ps_f"
                 /\ IF rv[self] = 5
@@ -5043,8 +5201,9 @@ z_ps_f(self) == /\ pc[self] = "z_ps_f"
                                 ppItem, pjLive, ppStage, h, dead, sti, rq, sq, 
                                 sj, rsq, bown, bwk, bi, bcur, bw, bsp, jq, jj, 
                                 jwk, fj, dq, dj, oq, oop, omode, oj, yq, yop, 
-                                tq, top, af, wf, wop, xf, cop, kj, pp, pwk, np, 
-                                nbp, nres, dp, pf, pctx, pq, pj, pd, nq >>
+                                yclaimed, tq, top, af, wf, wop, xf, cop, kj, 
+                                pp, pwk, np, nbp, nres, dp, pf, pctx, pq, pj, 
+                                pd, nq >>
 
 z_ps_s(self) == /\ pc[self] = "z_ps_s"
                 /\ /\ pctx' = [pctx EXCEPT ![self] = sctx[self]]
@@ -5075,9 +5234,9 @@ z_ps_s(self) == /\ pc[self] = "z_ps_s"
                                 nextPoll, ppItem, pjLive, ppStage, h, dead, 
                                 sti, rq, sq, sj, ww, rsq, bown, bwk, bi, bcur, 
                                 bw, bsp, jq, jj, jwk, fj, dq, dj, oq, oop, 
-                                omode, oj, yq, yop, tq, top, af, wf, wop, sf, 
-                                sctx, xf, cop, kj, pp, pwk, np, nbp, nres, dp, 
-                                nq >>
+                                omode, oj, yq, yop, yclaimed, tq, top, af, wf, 
+                                wop, sf, sctx, xf, cop, kj, pp, pwk, np, nbp, 
+                                nres, dp, nq >>
 
 z_ps_s2(self) == /\ pc[self] = "z_ps_s2"
                  /\ IF rv[self] = 5
@@ -5106,9 +5265,9 @@ z_ps_s2(self) == /\ pc[self] = "z_ps_s2"
                                  nextPoll, ppItem, pjLive, ppStage, h, dead, 
                                  sti, rq, sq, sj, ww, rsq, bown, bwk, bi, bcur, 
                                  bw, bsp, jq, jj, jwk, fj, dq, dj, oq, oop, 
-                                 omode, oj, yq, yop, tq, top, af, wf, wop, xf, 
-                                 cop, kj, pp, pwk, np, nbp, nres, dp, pf, pctx, 
-                                 pq, pj, pd, nq >>
+                                 omode, oj, yq, yop, yclaimed, tq, top, af, wf, 
+                                 wop, xf, cop, kj, pp, pwk, np, nbp, nres, dp, 
+                                 pf, pctx, pq, pj, pd, nq >>
 
 z_ps_panic(self) == /\ pc[self] = "z_ps_panic"
                     /\ rv' = [rv EXCEPT ![self] = 2]
@@ -5131,9 +5290,10 @@ z_ps_panic(self) == /\ pc[self] = "z_ps_panic"
                                     pwTaken, nextPoll, ppItem, pjLive, ppStage, 
                                     h, dead, sti, rq, sq, sj, ww, rsq, bown, 
                                     bwk, bi, bcur, bw, bsp, jq, jj, jwk, fj, 
-                                    dq, dj, oq, oop, omode, oj, yq, yop, tq, 
-                                    top, af, wf, wop, xf, cop, kj, pp, pwk, np, 
-                                    nbp, nres, dp, pf, pctx, pq, pj, pd, nq >>
+                                    dq, dj, oq, oop, omode, oj, yq, yop, 
+                                    yclaimed, tq, top, af, wf, wop, xf, cop, 
+                                    kj, pp, pwk, np, nbp, nres, dp, pf, pctx, 
+                                    pq, pj, pd, nq >>
 
 PollSync(self) == z_ps(self) \/ z_ps_q(self) \/ z_ps_f(self)
                      \/ z_ps_s(self) \/ z_ps_s2(self) \/ z_ps_panic(self)
@@ -5175,9 +5335,10 @@ z_df(self) == /\ pc[self] = "z_df"
                               inWaker, pollFn, chuteFn, pwTaken, nextPoll, 
                               ppItem, pjLive, ppStage, dead, sti, rq, sq, sj, 
                               rsq, bown, bwk, bi, bcur, bw, bsp, jq, jj, jwk, 
-                              fj, dq, dj, oq, oop, omode, oj, yq, yop, tq, top, 
-                              af, wf, wop, sf, sctx, cop, kj, pp, pwk, np, nbp, 
-                              nres, dp, pf, pctx, pq, pj, pd, nq >>
+                              fj, dq, dj, oq, oop, omode, oj, yq, yop, 
+                              yclaimed, tq, top, af, wf, wop, sf, sctx, cop, 
+                              kj, pp, pwk, np, nbp, nres, dp, pf, pctx, pq, pj, 
+                              pd, nq >>
 
 z_df2(self) == /\ pc[self] = "z_df2"
                /\ rv' = [rv EXCEPT ![self] = 0]
@@ -5198,9 +5359,9 @@ z_df2(self) == /\ pc[self] = "z_df2"
                                nextPoll, ppItem, pjLive, ppStage, h, dead, sti, 
                                rq, sq, sj, ww, rsq, bown, bwk, bi, bcur, bw, 
                                bsp, jq, jj, jwk, fj, dq, dj, oq, oop, omode, 
-                               oj, yq, yop, tq, top, af, wf, wop, sf, sctx, 
-                               cop, kj, pp, pwk, np, nbp, nres, dp, pf, pctx, 
-                               pq, pj, pd, nq >>
+                               oj, yq, yop, yclaimed, tq, top, af, wf, wop, sf, 
+                               sctx, cop, kj, pp, pwk, np, nbp, nres, dp, pf, 
+                               pctx, pq, pj, pd, nq >>
 
 DropFuture(self) == z_df(self) \/ z_df2(self)
 
@@ -5232,19 +5393,21 @@ z_pcr1(self) == /\ pc[self] = "z_pcr1"
                                 chuteFn, pwTaken, ppItem, ppStage, h, dead, 
                                 sti, rq, ww, rsq, bown, bwk, bi, bcur, bw, bsp, 
                                 jq, jj, jwk, fj, dq, dj, oq, oop, omode, oj, 
-                                yq, yop, tq, top, af, wf, wop, sf, sctx, xf, 
-                                cop, kj, pp, pwk, np, nbp, nres, dp, pf, pctx, 
-                                pq, pj, pd, nq >>
+                                yq, yop, yclaimed, tq, top, af, wf, wop, sf, 
+                                sctx, xf, cop, kj, pp, pwk, np, nbp, nres, dp, 
+                                pf, pctx, pq, pj, pd, nq >>
 
 z_pcr2(self) == /\ pc[self] = "z_pcr2"
                 /\ strong' = [strong EXCEPT ![O(cop[self])] = strong[O(cop[self])] - 1]
                 /\ /\ stack' = [stack EXCEPT ![self] = << [ procedure |->  "Sync",
                                                             pc        |->  "z_pcr3",
+                                                            yclaimed  |->  yclaimed[self],
                                                             yq        |->  yq[self],
                                                             yop       |->  yop[self] ] >>
                                                         \o stack[self]]
                    /\ yop' = [yop EXCEPT ![self] = cop[self]]
                    /\ yq' = [yq EXCEPT ![self] = O(cop[self])]
+                /\ yclaimed' = [yclaimed EXCEPT ![self] = FALSE]
                 /\ pc' = [pc EXCEPT ![self] = "sy_decide"]
                 /\ UNCHANGED << qstate, qpoll, jobs, wakeBlocked, schedule, 
                                 pthreads, nspawned, palive, busy, busyLocked, 
@@ -5282,9 +5445,9 @@ z_pcr3(self) == /\ pc[self] = "z_pcr3"
                                 nextPoll, ppItem, pjLive, ppStage, h, dead, 
                                 sti, rq, sq, sj, ww, rsq, bown, bwk, bi, bcur, 
                                 bw, bsp, jq, jj, jwk, fj, dq, dj, oq, oop, 
-                                omode, oj, yq, yop, tq, top, af, wf, wop, sf, 
-                                sctx, xf, kj, pp, pwk, np, nbp, nres, dp, pf, 
-                                pctx, pq, pj, pd, nq >>
+                                omode, oj, yq, yop, yclaimed, tq, top, af, wf, 
+                                wop, sf, sctx, xf, kj, pp, pwk, np, nbp, nres, 
+                                dp, pf, pctx, pq, pj, pd, nq >>
 
 PipeCreate(self) == z_pcr1(self) \/ z_pcr2(self) \/ z_pcr3(self)
 
@@ -5308,9 +5471,9 @@ z_pp_entry(self) == /\ pc[self] = "z_pp_entry"
                                     ppStage, h, stack, dead, sti, rq, sq, sj, 
                                     ww, rsq, bown, bwk, bi, bcur, bw, bsp, jq, 
                                     jj, jwk, fj, dq, dj, oq, oop, omode, oj, 
-                                    yq, yop, tq, top, af, wf, wop, sf, sctx, 
-                                    xf, cop, kj, pp, pwk, np, nbp, nres, dp, 
-                                    pf, pctx, pq, pj, pd, nq >>
+                                    yq, yop, yclaimed, tq, top, af, wf, wop, 
+                                    sf, sctx, xf, cop, kj, pp, pwk, np, nbp, 
+                                    nres, dp, pf, pctx, pq, pj, pd, nq >>
 
 pp_fn(self) == /\ pc[self] = "pp_fn"
                /\ IF ~pollFn[pp[self]]
@@ -5344,8 +5507,9 @@ pp_fn(self) == /\ pc[self] = "pp_fn"
                                ppItem, pjLive, ppStage, h, dead, sti, rq, sq, 
                                sj, ww, rsq, bown, bwk, bi, bcur, bw, bsp, jq, 
                                jj, jwk, fj, dq, dj, oq, oop, omode, oj, yq, 
-                               yop, tq, top, af, wf, wop, sf, sctx, xf, cop, 
-                               np, nbp, nres, dp, pf, pctx, pq, pj, pd, nq >>
+                               yop, yclaimed, tq, top, af, wf, wop, sf, sctx, 
+                               xf, cop, np, nbp, nres, dp, pf, pctx, pq, pj, 
+                               pd, nq >>
 
 pp_bp(self) == /\ pc[self] = "pp_bp"
                /\ IF Len(ppPending[pp[self]]) >= ppDepth[pp[self]]
@@ -5375,8 +5539,9 @@ pp_bp(self) == /\ pc[self] = "pp_bp"
                                ppItem, pjLive, ppStage, h, dead, sti, rq, sq, 
                                sj, ww, rsq, bown, bwk, bi, bcur, bw, bsp, jq, 
                                jj, jwk, fj, dq, dj, oq, oop, omode, oj, yq, 
-                               yop, tq, top, af, wf, wop, sf, sctx, xf, cop, 
-                               np, nbp, nres, dp, pf, pctx, pq, pj, pd, nq >>
+                               yop, yclaimed, tq, top, af, wf, wop, sf, sctx, 
+                               xf, cop, np, nbp, nres, dp, pf, pctx, pq, pj, 
+                               pd, nq >>
 
 pp_clear(self) == /\ pc[self] = "pp_clear"
                   /\ IF FixD5 /\ ppClosed[pp[self]]
@@ -5400,9 +5565,10 @@ pp_clear(self) == /\ pc[self] = "pp_clear"
                                   nextPoll, ppItem, pjLive, ppStage, h, stack, 
                                   dead, sti, rq, sq, sj, ww, rsq, bown, bwk, 
                                   bi, bcur, bw, bsp, jq, jj, jwk, fj, dq, dj, 
-                                  oq, oop, omode, oj, yq, yop, tq, top, af, wf, 
-                                  wop, sf, sctx, xf, cop, kj, pp, pwk, np, nbp, 
-                                  nres, dp, pf, pctx, pq, pj, pd, nq >>
+                                  oq, oop, omode, oj, yq, yop, yclaimed, tq, 
+                                  top, af, wf, wop, sf, sctx, xf, cop, kj, pp, 
+                                  pwk, np, nbp, nres, dp, pf, pctx, pq, pj, pd, 
+                                  nq >>
 
 pp_in(self) == /\ pc[self] = "pp_in"
                /\ IF inItems[pp[self]] # << >>
@@ -5430,9 +5596,9 @@ pp_in(self) == /\ pc[self] = "pp_in"
                                pjLive, ppStage, stack, dead, sti, rq, sq, sj, 
                                ww, rsq, bown, bwk, bi, bcur, bw, bsp, jq, jj, 
                                jwk, fj, dq, dj, oq, oop, omode, oj, yq, yop, 
-                               tq, top, af, wf, wop, sf, sctx, xf, cop, kj, pp, 
-                               pwk, np, nbp, nres, dp, pf, pctx, pq, pj, pd, 
-                               nq >>
+                               yclaimed, tq, top, af, wf, wop, sf, sctx, xf, 
+                               cop, kj, pp, pwk, np, nbp, nres, dp, pf, pctx, 
+                               pq, pj, pd, nq >>
 
 pp_in2(self) == /\ pc[self] = "pp_in2"
                 /\ inWaker' = [inWaker EXCEPT ![pp[self]] = PW(kj[self])]
@@ -5460,9 +5626,10 @@ pp_in2(self) == /\ pc[self] = "pp_in2"
                                 pollFn, chuteFn, pwTaken, nextPoll, pjLive, 
                                 ppStage, stack, dead, sti, rq, sq, sj, ww, rsq, 
                                 bown, bwk, bi, bcur, bw, bsp, jq, jj, jwk, fj, 
-                                dq, dj, oq, oop, omode, oj, yq, yop, tq, top, 
-                                af, wf, wop, sf, sctx, xf, cop, kj, pp, pwk, 
-                                np, nbp, nres, dp, pf, pctx, pq, pj, pd, nq >>
+                                dq, dj, oq, oop, omode, oj, yq, yop, yclaimed, 
+                                tq, top, af, wf, wop, sf, sctx, xf, cop, kj, 
+                                pp, pwk, np, nbp, nres, dp, pf, pctx, pq, pj, 
+                                pd, nq >>
 
 pp_reg(self) == /\ pc[self] = "pp_reg"
                 /\ IF FixD5 /\ ppClosed[pp[self]]
@@ -5491,8 +5658,9 @@ pp_reg(self) == /\ pc[self] = "pp_reg"
                                 ppItem, pjLive, ppStage, h, dead, sti, rq, sq, 
                                 sj, ww, rsq, bown, bwk, bi, bcur, bw, bsp, jq, 
                                 jj, jwk, fj, dq, dj, oq, oop, omode, oj, yq, 
-                                yop, tq, top, af, wf, wop, sf, sctx, xf, cop, 
-                                np, nbp, nres, dp, pf, pctx, pq, pj, pd, nq >>
+                                yop, yclaimed, tq, top, af, wf, wop, sf, sctx, 
+                                xf, cop, np, nbp, nres, dp, pf, pctx, pq, pj, 
+                                pd, nq >>
 
 pp_end(self) == /\ pc[self] = "pp_end"
                 /\ ppClosed' = [ppClosed EXCEPT ![pp[self]] = TRUE]
@@ -5513,10 +5681,10 @@ pp_end(self) == /\ pc[self] = "pp_end"
                                 chuteFn, pwTaken, nextPoll, ppItem, pjLive, 
                                 ppStage, h, stack, dead, sti, rq, sq, sj, ww, 
                                 rsq, bown, bwk, bi, bcur, bw, bsp, jq, jj, jwk, 
-                                fj, dq, dj, oq, oop, omode, oj, yq, yop, tq, 
-                                top, af, wf, wop, sf, sctx, xf, cop, kj, pp, 
-                                pwk, np, nbp, nres, dp, pf, pctx, pq, pj, pd, 
-                                nq >>
+                                fj, dq, dj, oq, oop, omode, oj, yq, yop, 
+                                yclaimed, tq, top, af, wf, wop, sf, sctx, xf, 
+                                cop, kj, pp, pwk, np, nbp, nres, dp, pf, pctx, 
+                                pq, pj, pd, nq >>
 
 pp_closed(self) == /\ pc[self] = "pp_closed"
                    /\ parkTok' = Unpark(parkTok, TaskOf(ppNotify[pp[self]]))
@@ -5538,9 +5706,9 @@ pp_closed(self) == /\ pc[self] = "pp_closed"
                                    ppStage, h, stack, dead, sti, rq, sq, sj, 
                                    ww, rsq, bown, bwk, bi, bcur, bw, bsp, jq, 
                                    jj, jwk, fj, dq, dj, oq, oop, omode, oj, yq, 
-                                   yop, tq, top, af, wf, wop, sf, sctx, xf, 
-                                   cop, kj, pp, pwk, np, nbp, nres, dp, pf, 
-                                   pctx, pq, pj, pd, nq >>
+                                   yop, yclaimed, tq, top, af, wf, wop, sf, 
+                                   sctx, xf, cop, kj, pp, pwk, np, nbp, nres, 
+                                   dp, pf, pctx, pq, pj, pd, nq >>
 
 pp_proc(self) == /\ pc[self] = "pp_proc"
                  /\ h' = ObsProcStart(h, self, pp[self], ppItem[kj[self]])
@@ -5560,9 +5728,9 @@ pp_proc(self) == /\ pc[self] = "pp_proc"
                                  ppStage, stack, dead, sti, rq, sq, sj, ww, 
                                  rsq, bown, bwk, bi, bcur, bw, bsp, jq, jj, 
                                  jwk, fj, dq, dj, oq, oop, omode, oj, yq, yop, 
-                                 tq, top, af, wf, wop, sf, sctx, xf, cop, kj, 
-                                 pp, pwk, np, nbp, nres, dp, pf, pctx, pq, pj, 
-                                 pd, nq >>
+                                 yclaimed, tq, top, af, wf, wop, sf, sctx, xf, 
+                                 cop, kj, pp, pwk, np, nbp, nres, dp, pf, pctx, 
+                                 pq, pj, pd, nq >>
 
 pp_body(self) == /\ pc[self] = "pp_body"
                  /\ IF OpTab[PipeOp(pp[self])].g # 0 /\ OpTab[PipeOp(pp[self])].g \notin gfired
@@ -5601,8 +5769,9 @@ pp_body(self) == /\ pc[self] = "pp_body"
                                  nextPoll, ppItem, pjLive, dead, sti, rq, sq, 
                                  sj, ww, rsq, bown, bwk, bi, bcur, bw, bsp, jq, 
                                  jj, jwk, fj, dq, dj, oq, oop, omode, oj, yq, 
-                                 yop, tq, top, af, wf, wop, sf, sctx, xf, cop, 
-                                 np, nbp, nres, dp, pf, pctx, pq, pj, pd, nq >>
+                                 yop, yclaimed, tq, top, af, wf, wop, sf, sctx, 
+                                 xf, cop, np, nbp, nres, dp, pf, pctx, pq, pj, 
+                                 pd, nq >>
 
 pp_resumed(self) == /\ pc[self] = "pp_resumed"
                     /\ ppStage' = [ppStage EXCEPT ![kj[self]] = 0]
@@ -5626,9 +5795,9 @@ pp_resumed(self) == /\ pc[self] = "pp_resumed"
                                     stack, dead, sti, rq, sq, sj, ww, rsq, 
                                     bown, bwk, bi, bcur, bw, bsp, jq, jj, jwk, 
                                     fj, dq, dj, oq, oop, omode, oj, yq, yop, 
-                                    tq, top, af, wf, wop, sf, sctx, xf, cop, 
-                                    kj, pp, pwk, np, nbp, nres, dp, pf, pctx, 
-                                    pq, pj, pd, nq >>
+                                    yclaimed, tq, top, af, wf, wop, sf, sctx, 
+                                    xf, cop, kj, pp, pwk, np, nbp, nres, dp, 
+                                    pf, pctx, pq, pj, pd, nq >>
 
 pp_push(self) == /\ pc[self] = "pp_push"
                  /\ ppPending' = [ppPending EXCEPT ![pp[self]] = Append(ppPending[pp[self]], 10 * ppItem[kj[self]])]
@@ -5649,9 +5818,9 @@ pp_push(self) == /\ pc[self] = "pp_push"
                                  pjLive, ppStage, h, stack, dead, sti, rq, sq, 
                                  sj, ww, rsq, bown, bwk, bi, bcur, bw, bsp, jq, 
                                  jj, jwk, fj, dq, dj, oq, oop, omode, oj, yq, 
-                                 yop, tq, top, af, wf, wop, sf, sctx, xf, cop, 
-                                 kj, pp, pwk, np, nbp, nres, dp, pf, pctx, pq, 
-                                 pj, pd, nq >>
+                                 yop, yclaimed, tq, top, af, wf, wop, sf, sctx, 
+                                 xf, cop, kj, pp, pwk, np, nbp, nres, dp, pf, 
+                                 pctx, pq, pj, pd, nq >>
 
 pi_in(self) == /\ pc[self] = "pi_in"
                /\ IF inItems[pp[self]] # << >>
@@ -5679,9 +5848,9 @@ pi_in(self) == /\ pc[self] = "pi_in"
                                pjLive, ppStage, stack, dead, sti, rq, sq, sj, 
                                ww, rsq, bown, bwk, bi, bcur, bw, bsp, jq, jj, 
                                jwk, fj, dq, dj, oq, oop, omode, oj, yq, yop, 
-                               tq, top, af, wf, wop, sf, sctx, xf, cop, kj, pp, 
-                               pwk, np, nbp, nres, dp, pf, pctx, pq, pj, pd, 
-                               nq >>
+                               yclaimed, tq, top, af, wf, wop, sf, sctx, xf, 
+                               cop, kj, pp, pwk, np, nbp, nres, dp, pf, pctx, 
+                               pq, pj, pd, nq >>
 
 pi_in2(self) == /\ pc[self] = "pi_in2"
                 /\ inWaker' = [inWaker EXCEPT ![pp[self]] = PW(kj[self])]
@@ -5715,9 +5884,9 @@ pi_in2(self) == /\ pc[self] = "pi_in2"
                                 pollFn, chuteFn, pwTaken, nextPoll, pjLive, 
                                 ppStage, dead, sti, rq, sq, sj, ww, rsq, bown, 
                                 bwk, bi, bcur, bw, bsp, jq, jj, jwk, fj, dq, 
-                                dj, oq, oop, omode, oj, yq, yop, tq, top, af, 
-                                wf, wop, sf, sctx, xf, cop, np, nbp, nres, dp, 
-                                pf, pctx, pq, pj, pd, nq >>
+                                dj, oq, oop, omode, oj, yq, yop, yclaimed, tq, 
+                                top, af, wf, wop, sf, sctx, xf, cop, np, nbp, 
+                                nres, dp, pf, pctx, pq, pj, pd, nq >>
 
 pp_dealloc(self) == /\ pc[self] = "pp_dealloc"
                     /\ IF pollFn[pp[self]]
@@ -5746,9 +5915,9 @@ pp_dealloc(self) == /\ pc[self] = "pp_dealloc"
                                     nextPoll, ppItem, pjLive, ppStage, dead, 
                                     sti, rq, sq, sj, ww, rsq, bown, bwk, bi, 
                                     bcur, bw, bsp, jq, jj, jwk, fj, dq, dj, oq, 
-                                    oop, omode, oj, yq, yop, tq, top, af, wf, 
-                                    wop, sf, sctx, xf, cop, np, nbp, nres, dp, 
-                                    pf, pctx, pq, pj, pd, nq >>
+                                    oop, omode, oj, yq, yop, yclaimed, tq, top, 
+                                    af, wf, wop, sf, sctx, xf, cop, np, nbp, 
+                                    nres, dp, pf, pctx, pq, pj, pd, nq >>
 
 PipePoll(self) == z_pp_entry(self) \/ pp_fn(self) \/ pp_bp(self)
                      \/ pp_clear(self) \/ pp_in(self) \/ pp_in2(self)
@@ -5796,8 +5965,9 @@ cn_poll(self) == /\ pc[self] = "cn_poll"
                                  pjLive, ppStage, h, dead, sti, rq, sq, sj, 
                                  rsq, bown, bwk, bi, bcur, bw, bsp, jq, jj, 
                                  jwk, fj, dq, dj, oq, oop, omode, oj, yq, yop, 
-                                 tq, top, af, wf, wop, sf, sctx, xf, cop, kj, 
-                                 pp, pwk, np, dp, pf, pctx, pq, pj, pd, nq >>
+                                 yclaimed, tq, top, af, wf, wop, sf, sctx, xf, 
+                                 cop, kj, pp, pwk, np, dp, pf, pctx, pq, pj, 
+                                 pd, nq >>
 
 z_cn_after(self) == /\ pc[self] = "z_cn_after"
                     /\ IF rv[self] = 5
@@ -5825,8 +5995,9 @@ z_cn_after(self) == /\ pc[self] = "z_cn_after"
                                     ppStage, dead, sti, rq, sq, sj, ww, rsq, 
                                     bown, bwk, bi, bcur, bw, bsp, jq, jj, jwk, 
                                     fj, dq, dj, oq, oop, omode, oj, yq, yop, 
-                                    tq, top, af, wf, wop, sf, sctx, xf, cop, 
-                                    kj, pp, pwk, dp, pf, pctx, pq, pj, pd, nq >>
+                                    yclaimed, tq, top, af, wf, wop, sf, sctx, 
+                                    xf, cop, kj, pp, pwk, dp, pf, pctx, pq, pj, 
+                                    pd, nq >>
 
 cn_park(self) == /\ pc[self] = "cn_park"
                  /\ parkTok[self]
@@ -5846,9 +6017,9 @@ cn_park(self) == /\ pc[self] = "cn_park"
                                  nextPoll, ppItem, pjLive, ppStage, h, stack, 
                                  dead, sti, rq, sq, sj, ww, rsq, bown, bwk, bi, 
                                  bcur, bw, bsp, jq, jj, jwk, fj, dq, dj, oq, 
-                                 oop, omode, oj, yq, yop, tq, top, af, wf, wop, 
-                                 sf, sctx, xf, cop, kj, pp, pwk, np, nbp, nres, 
-                                 dp, pf, pctx, pq, pj, pd, nq >>
+                                 oop, omode, oj, yq, yop, yclaimed, tq, top, 
+                                 af, wf, wop, sf, sctx, xf, cop, kj, pp, pwk, 
+                                 np, nbp, nres, dp, pf, pctx, pq, pj, pd, nq >>
 
 PipeNext(self) == cn_poll(self) \/ z_cn_after(self) \/ cn_park(self)
 
@@ -5879,9 +6050,9 @@ ps_drop(self) == /\ pc[self] = "ps_drop"
                                  pjLive, ppStage, h, dead, sti, rq, sq, sj, 
                                  rsq, bown, bwk, bi, bcur, bw, bsp, jq, jj, 
                                  jwk, fj, dq, dj, oq, oop, omode, oj, yq, yop, 
-                                 tq, top, af, wf, wop, sf, sctx, xf, cop, kj, 
-                                 pp, pwk, np, nbp, nres, dp, pf, pctx, pq, pj, 
-                                 pd, nq >>
+                                 yclaimed, tq, top, af, wf, wop, sf, sctx, xf, 
+                                 cop, kj, pp, pwk, np, nbp, nres, dp, pf, pctx, 
+                                 pq, pj, pd, nq >>
 
 z_ps2(self) == /\ pc[self] = "z_ps2"
                /\ ppNC' = [ppNC EXCEPT ![dp[self]] = NoW]
@@ -5907,9 +6078,10 @@ z_ps2(self) == /\ pc[self] = "z_ps2"
                                pollFn, chuteFn, pwTaken, nextPoll, ppItem, 
                                pjLive, ppStage, h, dead, sti, rq, ww, rsq, 
                                bown, bwk, bi, bcur, bw, bsp, jq, jj, jwk, fj, 
-                               dq, dj, oq, oop, omode, oj, yq, yop, tq, top, 
-                               af, wf, wop, sf, sctx, xf, cop, kj, pp, pwk, np, 
-                               nbp, nres, dp, pf, pctx, pq, pj, pd, nq >>
+                               dq, dj, oq, oop, omode, oj, yq, yop, yclaimed, 
+                               tq, top, af, wf, wop, sf, sctx, xf, cop, kj, pp, 
+                               pwk, np, nbp, nres, dp, pf, pctx, pq, pj, pd, 
+                               nq >>
 
 z_ps3(self) == /\ pc[self] = "z_ps3"
                /\ atomic' = [atomic EXCEPT ![self] = FALSE]
@@ -5930,9 +6102,9 @@ z_ps3(self) == /\ pc[self] = "z_ps3"
                                ppItem, pjLive, ppStage, h, stack, dead, sti, 
                                rq, sq, sj, ww, rsq, bown, bwk, bi, bcur, bw, 
                                bsp, jq, jj, jwk, fj, dq, dj, oq, oop, omode, 
-                               oj, yq, yop, tq, top, af, wf, wop, sf, sctx, xf, 
-                               cop, kj, pp, pwk, np, nbp, nres, dp, pf, pctx, 
-                               pq, pj, pd, nq >>
+                               oj, yq, yop, yclaimed, tq, top, af, wf, wop, sf, 
+                               sctx, xf, cop, kj, pp, pwk, np, nbp, nres, dp, 
+                               pf, pctx, pq, pj, pd, nq >>
 
 z_ps_gc(self) == /\ pc[self] = "z_ps_gc"
                  /\ IF pollFn[dp[self]] /\ ~CtxAlive(dp[self])
@@ -5957,9 +6129,9 @@ z_ps_gc(self) == /\ pc[self] = "z_ps_gc"
                                  pwTaken, nextPoll, ppItem, pjLive, ppStage, 
                                  dead, sti, rq, sq, sj, ww, rsq, bown, bwk, bi, 
                                  bcur, bw, bsp, jq, jj, jwk, fj, dq, dj, oq, 
-                                 oop, omode, oj, yq, yop, tq, top, af, wf, wop, 
-                                 sf, sctx, xf, cop, kj, pp, pwk, np, nbp, nres, 
-                                 pf, pctx, pq, pj, pd, nq >>
+                                 oop, omode, oj, yq, yop, yclaimed, tq, top, 
+                                 af, wf, wop, sf, sctx, xf, cop, kj, pp, pwk, 
+                                 np, nbp, nres, pf, pctx, pq, pj, pd, nq >>
 
 PipeDrop(self) == ps_drop(self) \/ z_ps2(self) \/ z_ps3(self)
                      \/ z_ps_gc(self)
@@ -5981,9 +6153,9 @@ ds_max(self) == /\ pc[self] = "ds_max"
                                 nextPoll, ppItem, pjLive, ppStage, h, stack, 
                                 dead, sti, rq, sq, sj, ww, rsq, bown, bwk, bi, 
                                 bcur, bw, bsp, jq, jj, jwk, fj, dq, dj, oq, 
-                                oop, omode, oj, yq, yop, tq, top, af, wf, wop, 
-                                sf, sctx, xf, cop, kj, pp, pwk, np, nbp, nres, 
-                                dp, pf, pctx, pq, pj, pd, nq >>
+                                oop, omode, oj, yq, yop, yclaimed, tq, top, af, 
+                                wf, wop, sf, sctx, xf, cop, kj, pp, pwk, np, 
+                                nbp, nres, dp, pf, pctx, pq, pj, pd, nq >>
 
 ds_pop(self) == /\ pc[self] = "ds_pop"
                 /\ thrHeld = ""
@@ -6009,10 +6181,10 @@ ds_pop(self) == /\ pc[self] = "ds_pop"
                                 pollFn, chuteFn, pwTaken, nextPoll, ppItem, 
                                 pjLive, ppStage, h, dead, sti, rq, sq, sj, ww, 
                                 rsq, bown, bwk, bi, bcur, bw, bsp, jq, jj, jwk, 
-                                fj, dq, dj, oq, oop, omode, oj, yq, yop, tq, 
-                                top, af, wf, wop, sf, sctx, xf, cop, kj, pp, 
-                                pwk, np, nbp, nres, dp, pf, pctx, pq, pj, pd, 
-                                nq >>
+                                fj, dq, dj, oq, oop, omode, oj, yq, yop, 
+                                yclaimed, tq, top, af, wf, wop, sf, sctx, xf, 
+                                cop, kj, pp, pwk, np, nbp, nres, dp, pf, pctx, 
+                                pq, pj, pd, nq >>
 
 ds_join(self) == /\ pc[self] = "ds_join"
                  /\ pfin[Head(dsl[self])]
@@ -6038,9 +6210,9 @@ ds_join(self) == /\ pc[self] = "ds_join"
                                  nextPoll, ppItem, pjLive, ppStage, dead, sti, 
                                  rq, sq, sj, ww, rsq, bown, bwk, bi, bcur, bw, 
                                  bsp, jq, jj, jwk, fj, dq, dj, oq, oop, omode, 
-                                 oj, yq, yop, tq, top, af, wf, wop, sf, sctx, 
-                                 xf, cop, kj, pp, pwk, np, nbp, nres, dp, pf, 
-                                 pctx, pq, pj, pd, nq >>
+                                 oj, yq, yop, yclaimed, tq, top, af, wf, wop, 
+                                 sf, sctx, xf, cop, kj, pp, pwk, np, nbp, nres, 
+                                 dp, pf, pctx, pq, pj, pd, nq >>
 
 Despawn(self) == ds_max(self) \/ ds_pop(self) \/ ds_join(self)
 
@@ -6118,9 +6290,9 @@ pf_decide(self) == /\ pc[self] = "pf_decide"
                                    ppItem, pjLive, ppStage, h, dead, sti, rq, 
                                    sq, sj, ww, rsq, bown, bwk, bi, bcur, bw, 
                                    bsp, jq, jj, jwk, fj, dq, dj, oq, oop, 
-                                   omode, oj, yq, yop, tq, top, af, wf, wop, 
-                                   sf, sctx, xf, cop, kj, pp, pwk, np, nbp, 
-                                   nres, dp, nq >>
+                                   omode, oj, yq, yop, yclaimed, tq, top, af, 
+                                   wf, wop, sf, sctx, xf, cop, kj, pp, pwk, np, 
+                                   nbp, nres, dp, nq >>
 
 dq_res(self) == /\ pc[self] = "dq_res"
                 /\ IF fres[pf[self]] = "some"
@@ -6147,9 +6319,9 @@ dq_res(self) == /\ pc[self] = "dq_res"
                                 nextPoll, ppItem, pjLive, ppStage, h, stack, 
                                 dead, sti, rq, sq, sj, ww, rsq, bown, bwk, bi, 
                                 bcur, bw, bsp, jq, jj, jwk, fj, dq, dj, oq, 
-                                oop, omode, oj, yq, yop, tq, top, af, wf, wop, 
-                                sf, sctx, xf, cop, kj, pp, pwk, np, nbp, nres, 
-                                dp, pf, pctx, pq, pj, pd, nq >>
+                                oop, omode, oj, yq, yop, yclaimed, tq, top, af, 
+                                wf, wop, sf, sctx, xf, cop, kj, pp, pwk, np, 
+                                nbp, nres, dp, pf, pctx, pq, pj, pd, nq >>
 
 dq_deq(self) == /\ pc[self] = "dq_deq"
                 /\ IF qstate[pq[self]] \in Waiting \/ jobs[pq[self]] = << >>
@@ -6184,9 +6356,9 @@ dq_deq(self) == /\ pc[self] = "dq_deq"
                                 nextPoll, ppItem, pjLive, ppStage, h, dead, 
                                 sti, rq, sq, sj, ww, rsq, bown, bwk, bi, bcur, 
                                 bw, bsp, fj, dq, dj, oq, oop, omode, oj, yq, 
-                                yop, tq, top, af, wf, wop, sf, sctx, xf, cop, 
-                                kj, pp, pwk, np, nbp, nres, dp, pf, pctx, pq, 
-                                nq >>
+                                yop, yclaimed, tq, top, af, wf, wop, sf, sctx, 
+                                xf, cop, kj, pp, pwk, np, nbp, nres, dp, pf, 
+                                pctx, pq, nq >>
 
 z_dq_after(self) == /\ pc[self] = "z_dq_after"
                     /\ IF rv[self] = 5
@@ -6226,10 +6398,10 @@ z_dq_after(self) == /\ pc[self] = "z_dq_after"
                                     chuteFn, pwTaken, nextPoll, ppItem, pjLive, 
                                     ppStage, h, dead, sti, rq, sq, sj, ww, rsq, 
                                     bown, bwk, bi, bcur, bw, bsp, jq, jj, jwk, 
-                                    dq, dj, oq, oop, omode, oj, yq, yop, tq, 
-                                    top, af, wf, wop, sf, sctx, xf, cop, kj, 
-                                    pp, pwk, np, nbp, nres, dp, pf, pctx, pq, 
-                                    pj, pd, nq >>
+                                    dq, dj, oq, oop, omode, oj, yq, yop, 
+                                    yclaimed, tq, top, af, wf, wop, sf, sctx, 
+                                    xf, cop, kj, pp, pwk, np, nbp, nres, dp, 
+                                    pf, pctx, pq, pj, pd, nq >>
 
 dq_requeue(self) == /\ pc[self] = "dq_requeue"
                     /\ jobs' = [jobs EXCEPT ![pq[self]] = << pj[self] >> \o jobs[pq[self]]]
@@ -6250,9 +6422,9 @@ dq_requeue(self) == /\ pc[self] = "dq_requeue"
                                     ppStage, h, stack, dead, sti, rq, sq, sj, 
                                     ww, rsq, bown, bwk, bi, bcur, bw, bsp, jq, 
                                     jj, jwk, fj, dq, dj, oq, oop, omode, oj, 
-                                    yq, yop, tq, top, af, wf, wop, sf, sctx, 
-                                    xf, cop, kj, pp, pwk, np, nbp, nres, dp, 
-                                    pf, pctx, pq, pj, pd, nq >>
+                                    yq, yop, yclaimed, tq, top, af, wf, wop, 
+                                    sf, sctx, xf, cop, kj, pp, pwk, np, nbp, 
+                                    nres, dp, pf, pctx, pq, pj, pd, nq >>
 
 dq_res2(self) == /\ pc[self] = "dq_res2"
                  /\ IF fres[pf[self]] = "some"
@@ -6279,9 +6451,9 @@ dq_res2(self) == /\ pc[self] = "dq_res2"
                                  nextPoll, ppItem, pjLive, ppStage, h, stack, 
                                  dead, sti, rq, sq, sj, ww, rsq, bown, bwk, bi, 
                                  bcur, bw, bsp, jq, jj, jwk, fj, dq, dj, oq, 
-                                 oop, omode, oj, yq, yop, tq, top, af, wf, wop, 
-                                 sf, sctx, xf, cop, kj, pp, pwk, np, nbp, nres, 
-                                 dp, pf, pctx, pq, pj, pd, nq >>
+                                 oop, omode, oj, yq, yop, yclaimed, tq, top, 
+                                 af, wf, wop, sf, sctx, xf, cop, kj, pp, pwk, 
+                                 np, nbp, nres, dp, pf, pctx, pq, pj, pd, nq >>
 
 dq_waitwake(self) == /\ pc[self] = "dq_waitwake"
                      /\ qstate' = [qstate EXCEPT ![pq[self]] = "WaitingForWake"]
@@ -6302,10 +6474,10 @@ dq_waitwake(self) == /\ pc[self] = "dq_waitwake"
                                      ppItem, pjLive, ppStage, h, stack, dead, 
                                      sti, rq, sq, sj, ww, rsq, bown, bwk, bi, 
                                      bcur, bw, bsp, jq, jj, jwk, fj, dq, dj, 
-                                     oq, oop, omode, oj, yq, yop, tq, top, af, 
-                                     wf, wop, sf, sctx, xf, cop, kj, pp, pwk, 
-                                     np, nbp, nres, dp, pf, pctx, pq, pj, pd, 
-                                     nq >>
+                                     oq, oop, omode, oj, yq, yop, yclaimed, tq, 
+                                     top, af, wf, wop, sf, sctx, xf, cop, kj, 
+                                     pp, pwk, np, nbp, nres, dp, pf, pctx, pq, 
+                                     pj, pd, nq >>
 
 dq_ww1(self) == /\ pc[self] = "dq_ww1"
                 /\ IF dwSt[pd[self]] = "Woken"
@@ -6334,9 +6506,9 @@ dq_ww1(self) == /\ pc[self] = "dq_ww1"
                                 nextPoll, ppItem, pjLive, ppStage, h, dead, 
                                 sti, rq, sq, sj, rsq, bown, bwk, bi, bcur, bw, 
                                 bsp, jq, jj, jwk, fj, dq, dj, oq, oop, omode, 
-                                oj, yq, yop, tq, top, af, wf, wop, sf, sctx, 
-                                xf, cop, kj, pp, pwk, np, nbp, nres, dp, pf, 
-                                pctx, pq, pj, pd, nq >>
+                                oj, yq, yop, yclaimed, tq, top, af, wf, wop, 
+                                sf, sctx, xf, cop, kj, pp, pwk, np, nbp, nres, 
+                                dp, pf, pctx, pq, pj, pd, nq >>
 
 z_dq_ready(self) == /\ pc[self] = "z_dq_ready"
                     /\ pc' = [pc EXCEPT ![self] = Head(stack[self]).pc]
@@ -6362,8 +6534,9 @@ z_dq_ready(self) == /\ pc[self] = "z_dq_ready"
                                     ppStage, h, dead, sti, rq, sq, sj, ww, rsq, 
                                     bown, bwk, bi, bcur, bw, bsp, jq, jj, jwk, 
                                     fj, dq, dj, oq, oop, omode, oj, yq, yop, 
-                                    tq, top, af, wf, wop, sf, sctx, xf, cop, 
-                                    kj, pp, pwk, np, nbp, nres, dp, nq >>
+                                    yclaimed, tq, top, af, wf, wop, sf, sctx, 
+                                    xf, cop, kj, pp, pwk, np, nbp, nres, dp, 
+                                    nq >>
 
 dq_setwaker(self) == /\ pc[self] = "dq_setwaker"
                      /\ fwaker' = [fwaker EXCEPT ![pf[self]] = pctx[self]]
@@ -6384,10 +6557,10 @@ dq_setwaker(self) == /\ pc[self] = "dq_setwaker"
                                      ppItem, pjLive, ppStage, h, stack, dead, 
                                      sti, rq, sq, sj, ww, rsq, bown, bwk, bi, 
                                      bcur, bw, bsp, jq, jj, jwk, fj, dq, dj, 
-                                     oq, oop, omode, oj, yq, yop, tq, top, af, 
-                                     wf, wop, sf, sctx, xf, cop, kj, pp, pwk, 
-                                     np, nbp, nres, dp, pf, pctx, pq, pj, pd, 
-                                     nq >>
+                                     oq, oop, omode, oj, yq, yop, yclaimed, tq, 
+                                     top, af, wf, wop, sf, sctx, xf, cop, kj, 
+                                     pp, pwk, np, nbp, nres, dp, pf, pctx, pq, 
+                                     pj, pd, nq >>
 
 dq_waitpoll(self) == /\ pc[self] = "dq_waitpoll"
                      /\ qstate' = [qstate EXCEPT ![pq[self]] = "WaitingForPoll"]
@@ -6409,9 +6582,10 @@ dq_waitpoll(self) == /\ pc[self] = "dq_waitpoll"
                                      pjLive, ppStage, h, stack, dead, sti, rq, 
                                      sq, sj, ww, rsq, bown, bwk, bi, bcur, bw, 
                                      bsp, jq, jj, jwk, fj, dq, dj, oq, oop, 
-                                     omode, oj, yq, yop, tq, top, af, wf, wop, 
-                                     sf, sctx, xf, cop, kj, pp, pwk, np, nbp, 
-                                     nres, dp, pf, pctx, pq, pj, pd, nq >>
+                                     omode, oj, yq, yop, yclaimed, tq, top, af, 
+                                     wf, wop, sf, sctx, xf, cop, kj, pp, pwk, 
+                                     np, nbp, nres, dp, pf, pctx, pq, pj, pd, 
+                                     nq >>
 
 dq_ww2(self) == /\ pc[self] = "dq_ww2"
                 /\ dblW1' = [dblW1 EXCEPT ![pd[self]] = WQ(pq[self])]
@@ -6442,9 +6616,9 @@ dq_ww2(self) == /\ pc[self] = "dq_ww2"
                                 ppItem, pjLive, ppStage, h, dead, sti, rq, sq, 
                                 sj, rsq, bown, bwk, bi, bcur, bw, bsp, jq, jj, 
                                 jwk, fj, dq, dj, oq, oop, omode, oj, yq, yop, 
-                                tq, top, af, wf, wop, sf, sctx, xf, cop, kj, 
-                                pp, pwk, np, nbp, nres, dp, pf, pctx, pq, pj, 
-                                pd, nq >>
+                                yclaimed, tq, top, af, wf, wop, sf, sctx, xf, 
+                                cop, kj, pp, pwk, np, nbp, nres, dp, pf, pctx, 
+                                pq, pj, pd, nq >>
 
 z_dq_pending(self) == /\ pc[self] = "z_dq_pending"
                       /\ rv' = [rv EXCEPT ![self] = 5]
@@ -6471,9 +6645,10 @@ z_dq_pending(self) == /\ pc[self] = "z_dq_pending"
                                       nextPoll, ppItem, pjLive, ppStage, h, 
                                       dead, sti, rq, sq, sj, ww, rsq, bown, 
                                       bwk, bi, bcur, bw, bsp, jq, jj, jwk, fj, 
-                                      dq, dj, oq, oop, omode, oj, yq, yop, tq, 
-                                      top, af, wf, wop, sf, sctx, xf, cop, kj, 
-                                      pp, pwk, np, nbp, nres, dp, nq >>
+                                      dq, dj, oq, oop, omode, oj, yq, yop, 
+                                      yclaimed, tq, top, af, wf, wop, sf, sctx, 
+                                      xf, cop, kj, pp, pwk, np, nbp, nres, dp, 
+                                      nq >>
 
 dq_empty_w(self) == /\ pc[self] = "dq_empty_w"
                     /\ fwaker' = [fwaker EXCEPT ![pf[self]] = pctx[self]]
@@ -6494,9 +6669,9 @@ dq_empty_w(self) == /\ pc[self] = "dq_empty_w"
                                     ppStage, h, stack, dead, sti, rq, sq, sj, 
                                     ww, rsq, bown, bwk, bi, bcur, bw, bsp, jq, 
                                     jj, jwk, fj, dq, dj, oq, oop, omode, oj, 
-                                    yq, yop, tq, top, af, wf, wop, sf, sctx, 
-                                    xf, cop, kj, pp, pwk, np, nbp, nres, dp, 
-                                    pf, pctx, pq, pj, pd, nq >>
+                                    yq, yop, yclaimed, tq, top, af, wf, wop, 
+                                    sf, sctx, xf, cop, kj, pp, pwk, np, nbp, 
+                                    nres, dp, pf, pctx, pq, pj, pd, nq >>
 
 dq_empty_idle(self) == /\ pc[self] = "dq_empty_idle"
                        /\ qstate' = [qstate EXCEPT ![pq[self]] = "Idle"]
@@ -6523,9 +6698,9 @@ dq_empty_idle(self) == /\ pc[self] = "dq_empty_idle"
                                        pjLive, ppStage, h, dead, sti, sq, sj, 
                                        ww, rsq, bown, bwk, bi, bcur, bw, bsp, 
                                        jq, jj, jwk, fj, dq, dj, oq, oop, omode, 
-                                       oj, yq, yop, tq, top, af, wf, wop, sf, 
-                                       sctx, xf, cop, kj, pp, pwk, np, nbp, 
-                                       nres, dp, pf, pctx, pq, pj, pd, nq >>
+                                       oj, yq, yop, yclaimed, tq, top, af, wf, 
+                                       wop, sf, sctx, xf, cop, kj, pp, pwk, np, 
+                                       nbp, nres, dp, pf, pctx, pq, pj, pd, nq >>
 
 dq_idle(self) == /\ pc[self] = "dq_idle"
                  /\ qstate' = [qstate EXCEPT ![pq[self]] = "Idle"]
@@ -6549,9 +6724,10 @@ dq_idle(self) == /\ pc[self] = "dq_idle"
                                  chuteFn, pwTaken, nextPoll, ppItem, pjLive, 
                                  ppStage, h, dead, sti, sq, sj, ww, rsq, bown, 
                                  bwk, bi, bcur, bw, bsp, jq, jj, jwk, fj, dq, 
-                                 dj, oq, oop, omode, oj, yq, yop, tq, top, af, 
-                                 wf, wop, sf, sctx, xf, cop, kj, pp, pwk, np, 
-                                 nbp, nres, dp, pf, pctx, pq, pj, pd, nq >>
+                                 dj, oq, oop, omode, oj, yq, yop, yclaimed, tq, 
+                                 top, af, wf, wop, sf, sctx, xf, cop, kj, pp, 
+                                 pwk, np, nbp, nres, dp, pf, pctx, pq, pj, pd, 
+                                 nq >>
 
 dq_panic(self) == /\ pc[self] = "dq_panic"
                   /\ qstate' = [qstate EXCEPT ![pq[self]] = "Panicked"]
@@ -6577,9 +6753,9 @@ dq_panic(self) == /\ pc[self] = "dq_panic"
                                   chuteFn, pwTaken, nextPoll, ppItem, pjLive, 
                                   ppStage, h, dead, sti, rq, sq, sj, ww, rsq, 
                                   bown, bwk, bi, bcur, bw, bsp, jq, jj, jwk, 
-                                  fj, dq, dj, oq, oop, omode, oj, yq, yop, tq, 
-                                  top, af, wf, wop, sf, sctx, xf, cop, kj, pp, 
-                                  pwk, np, nbp, nres, dp, nq >>
+                                  fj, dq, dj, oq, oop, omode, oj, yq, yop, 
+                                  yclaimed, tq, top, af, wf, wop, sf, sctx, xf, 
+                                  cop, kj, pp, pwk, np, nbp, nres, dp, nq >>
 
 PollFuture(self) == pf_decide(self) \/ dq_res(self) \/ dq_deq(self)
                        \/ z_dq_after(self) \/ dq_requeue(self)
@@ -6623,9 +6799,9 @@ c_start(self) == /\ pc[self] = "c_start"
                                  chuteFn, pwTaken, nextPoll, ppItem, pjLive, 
                                  ppStage, h, dead, sti, rq, sq, sj, ww, jq, jj, 
                                  jwk, fj, dq, dj, oq, oop, omode, oj, yq, yop, 
-                                 tq, top, af, wf, wop, sf, sctx, xf, cop, kj, 
-                                 pp, pwk, np, nbp, nres, dp, pf, pctx, pq, pj, 
-                                 pd, nq >>
+                                 yclaimed, tq, top, af, wf, wop, sf, sctx, xf, 
+                                 cop, kj, pp, pwk, np, nbp, nres, dp, pf, pctx, 
+                                 pq, pj, pd, nq >>
 
 z_c_exit(self) == /\ pc[self] = "z_c_exit"
                   /\ h' = ObsExit(h, self, 0, 0)
@@ -6645,9 +6821,9 @@ z_c_exit(self) == /\ pc[self] = "z_c_exit"
                                   ppStage, stack, dead, sti, rq, sq, sj, ww, 
                                   rsq, bown, bwk, bi, bcur, bw, bsp, jq, jj, 
                                   jwk, fj, dq, dj, oq, oop, omode, oj, yq, yop, 
-                                  tq, top, af, wf, wop, sf, sctx, xf, cop, kj, 
-                                  pp, pwk, np, nbp, nres, dp, pf, pctx, pq, pj, 
-                                  pd, nq >>
+                                  yclaimed, tq, top, af, wf, wop, sf, sctx, xf, 
+                                  cop, kj, pp, pwk, np, nbp, nres, dp, pf, 
+                                  pctx, pq, pj, pd, nq >>
 
 caller(self) == c_start(self) \/ z_c_exit(self)
 
@@ -6676,9 +6852,9 @@ pt_recv(self) == /\ pc[self] = "pt_recv"
                                  ppStage, stack, dead, sti, rq, sq, sj, ww, 
                                  rsq, bown, bwk, bi, bcur, bw, bsp, jq, jj, 
                                  jwk, fj, dq, dj, oq, oop, omode, oj, yq, yop, 
-                                 tq, top, af, wf, wop, sf, sctx, xf, cop, kj, 
-                                 pp, pwk, np, nbp, nres, dp, pf, pctx, pq, pj, 
-                                 pd, nq >>
+                                 yclaimed, tq, top, af, wf, wop, sf, sctx, xf, 
+                                 cop, kj, pp, pwk, np, nbp, nres, dp, pf, pctx, 
+                                 pq, pj, pd, nq >>
 
 pt_next(self) == /\ pc[self] = "pt_next"
                  /\ LET r == NTR(schedule) IN
@@ -6705,9 +6881,9 @@ pt_next(self) == /\ pc[self] = "pt_next"
                                  pjLive, ppStage, h, stack, dead, sti, rq, sq, 
                                  sj, ww, rsq, bown, bwk, bi, bcur, bw, bsp, jq, 
                                  jj, jwk, fj, dq, dj, oq, oop, omode, oj, yq, 
-                                 yop, tq, top, af, wf, wop, sf, sctx, xf, cop, 
-                                 kj, pp, pwk, np, nbp, nres, dp, pf, pctx, pq, 
-                                 pj, pd >>
+                                 yop, yclaimed, tq, top, af, wf, wop, sf, sctx, 
+                                 xf, cop, kj, pp, pwk, np, nbp, nres, dp, pf, 
+                                 pctx, pq, pj, pd >>
 
 pt_after(self) == /\ pc[self] = "pt_after"
                   /\ busyLocked' = [busyLocked EXCEPT ![self] = FALSE]
@@ -6738,9 +6914,10 @@ pt_after(self) == /\ pc[self] = "pt_after"
                                   chuteFn, pwTaken, nextPoll, ppItem, pjLive, 
                                   ppStage, h, dead, sti, rq, sq, sj, ww, rsq, 
                                   bown, bwk, bi, bcur, bw, bsp, jq, jj, jwk, 
-                                  fj, oq, oop, omode, oj, yq, yop, tq, top, af, 
-                                  wf, wop, sf, sctx, xf, cop, kj, pp, pwk, np, 
-                                  nbp, nres, dp, pf, pctx, pq, pj, pd, nq >>
+                                  fj, oq, oop, omode, oj, yq, yop, yclaimed, 
+                                  tq, top, af, wf, wop, sf, sctx, xf, cop, kj, 
+                                  pp, pwk, np, nbp, nres, dp, pf, pctx, pq, pj, 
+                                  pd, nq >>
 
 z_pt_chk(self) == /\ pc[self] = "z_pt_chk"
                   /\ IF rv[self] = 9
@@ -6764,9 +6941,9 @@ z_pt_chk(self) == /\ pc[self] = "z_pt_chk"
                                   ppStage, stack, dead, sti, rq, sq, sj, ww, 
                                   rsq, bown, bwk, bi, bcur, bw, bsp, jq, jj, 
                                   jwk, fj, dq, dj, oq, oop, omode, oj, yq, yop, 
-                                  tq, top, af, wf, wop, sf, sctx, xf, cop, kj, 
-                                  pp, pwk, np, nbp, nres, dp, pf, pctx, pq, pj, 
-                                  pd, nq >>
+                                  yclaimed, tq, top, af, wf, wop, sf, sctx, xf, 
+                                  cop, kj, pp, pwk, np, nbp, nres, dp, pf, 
+                                  pctx, pq, pj, pd, nq >>
 
 z_pt_done(self) == /\ pc[self] = "z_pt_done"
                    /\ TRUE
@@ -6786,9 +6963,10 @@ z_pt_done(self) == /\ pc[self] = "z_pt_done"
                                    nextPoll, ppItem, pjLive, ppStage, h, stack, 
                                    dead, sti, rq, sq, sj, ww, rsq, bown, bwk, 
                                    bi, bcur, bw, bsp, jq, jj, jwk, fj, dq, dj, 
-                                   oq, oop, omode, oj, yq, yop, tq, top, af, 
-                                   wf, wop, sf, sctx, xf, cop, kj, pp, pwk, np, 
-                                   nbp, nres, dp, pf, pctx, pq, pj, pd, nq >>
+                                   oq, oop, omode, oj, yq, yop, yclaimed, tq, 
+                                   top, af, wf, wop, sf, sctx, xf, cop, kj, pp, 
+                                   pwk, np, nbp, nres, dp, pf, pctx, pq, pj, 
+                                   pd, nq >>
 
 pool(self) == pt_recv(self) \/ pt_next(self) \/ pt_after(self)
                  \/ z_pt_chk(self) \/ z_pt_done(self)
@@ -6817,5 +6995,4 @@ Spec == Init /\ [][Next]_vars
 Termination == <>(\A self \in ProcSet: pc[self] = "Done")
 
 \* END TRANSLATION
-
-=============================================================================
+====
